@@ -26,11 +26,41 @@ Relational steps of V4 (both sides extracted, then compared with each other):
    loops are compared in one order; an elementwise scratch vector (T[:] = E(A); ... T[k]) is compared as its element formula
    E(A[k]); keyword arguments of calls are put at their positions; optional parameters that only the reference has and no
    library call passes are bound to their defaults before the comparison.
-V1 and I1 bind the actual library calls (with `*seq` / `**mapping` written out from their literal): VIOLATED names the call
-that does not bind; a starred argument that cannot be followed is UNDECIDED.
+Pass 3 (round 5) added, all applied to BOTH sides before they are compared with each other:
+ - iteration headers: enumerate(X), enumerate(X[a:]), enumerate(X, s) are index loops with the element fetched first; range(n),
+   range(0, n), range(0, n, 1) are compared part by part;
+ - view aliases: Y = X / Y = X.real / Y = X.imag (a local bound once to a parameter) is written back; X.real of an array declared
+   real is X; a store through `.real` against a store into the element is VIOLATED only when the declared type (TypeVar
+   alternatives written out) admits complex storage;
+ - ONE conditional shift of a period (`if x >= H: x -= A` / `if x < L: x += B`, chained, in a row, or as conditional
+   expressions) is named wrap_once_(...): against a reduction `x % A` of the other side it is a DIFFERENT function when x is built
+   from input data (VIOLATED, both sides quoted), UNDECIDED when x is bounded by construction;
+ - element programs: functions that only fill arrays element by element are compared with their index loops removed (same
+   program of one element, same ranges): loop fission / fusion / interchange of the index loops around a reduction HOLDS;
+ - case analysis on mode parameters (integer/boolean arguments only compared with literals): reference and copy are specialised
+   to every region of the mode (comparisons decided, dead arms removed, boolean locals propagated) and compared case by case: a
+   dispatch moved into / out of a loop, merged or duplicated arms HOLD; a case in which the specialised bodies correspond
+   statement by statement and an expression differs is VIOLATED for that mode;
+ - the span convention of cu_find_span is a matter between the search and the evaluators of ONE module: an evaluator of a copy is
+   proved against the specification with the search of its own module, the searches are compared with each other separately.
+V1 and I1 bind the actual library calls (with `*seq` / `**mapping` written out from their literal, a comprehension over a literal
+sequence or class-level constant written out element by element): VIOLATED names the call that does not bind; a starred argument
+that cannot be followed is UNDECIDED.  Kernels selected through a small table (namedtuple / keyword record / dict display whose
+entries are kernel functions) are followed: `X.field(...)` / `X['key'](...)` is a call of every kernel stored under that field.
+B1-makefile-targets reads the kernel rules by role: an explicit rule, a static pattern rule or a pattern rule whose target list
+(variables, addsuffix / addprefix written out) contains the kernel, each building it from $(NAME_PREFIX)<kernel>.py.
+Periodic wraps have three named forms - reduction `%`, loops over whole periods wrap_loops_(x, L, strict, H, strict, P, order), one
+conditional shift wrap_once_(...) - which are compared with each other by their parameters (half-open against closed range: a
+point exactly on H; one shift against many: a displacement of more than a period), VIOLATED only when x is input data.
 K1: no index that interpreted Python would wrap around and compiled code would not (X - Y % n,
 one-sided or single-step range correction of a difference, unreduced difference of array data,
-index counted from the end by a variable); K2: no loop counter read after its loop.
+index counted from the end by a variable; also when the index goes through a local table filled in the kernel, or is computed by
+the callers as an unreduced difference of table data and handed in); an index that is an ENTRY of an integer table handed in by the callers (nothing
+subtracted in the kernel) is decided with the callers: HOLDS when every library call (through forwarding wrappers) passes
+values that are non-negative by construction (`% n`, abs, arange, sums of such), UNDECIDED otherwise.
+K2: no loop counter read after its loop (a loop with `break`: UNDECIDED).
+K3: no array argument of a pyccel kernel is re-bound as a whole (`X = E`): Python binds a new local array, compiled code assigns in
+place into the caller's array.
 Numerical equality of compiled and interpreted results is inherently dynamic: not decided.
 """
 from __future__ import annotations
@@ -185,17 +215,16 @@ def _strip(fn: ast.FunctionDef) -> ast.FunctionDef:
             if isinstance(st, (ast.For, ast.While, ast.If)) and not st.body:
                 st.body = [ast.Pass()]
             # for i, v in enumerate(X): ...   ->   for i in range(X.shape[0]): v = X[i]; ...
-            if isinstance(st, ast.For) and isinstance(st.iter, ast.Call) and isinstance(st.iter.func, ast.Name) and st.iter.func.id == "enumerate" \
-                    and len(st.iter.args) == 1 and not st.iter.keywords and isinstance(st.iter.args[0], ast.Name) \
-                    and isinstance(st.target, ast.Tuple) and len(st.target.elts) == 2 and all(isinstance(e, ast.Name) for e in st.target.elts) \
-                    and not st.orelse:
-                cnt, elt, arr = st.target.elts[0].id, st.target.elts[1].id, st.iter.args[0].id
-                fetch = ast.Assign(targets=[ast.Name(id=elt, ctx=ast.Store())],
-                                   value=ast.Subscript(value=ast.Name(id=arr, ctx=ast.Load()), slice=ast.Name(id=cnt, ctx=ast.Load()), ctx=ast.Load()))
-                st = ast.For(target=ast.Name(id=cnt, ctx=ast.Store()),
-                             iter=ast.Call(func=ast.Name(id="range", ctx=ast.Load()),
-                                           args=[ast.Subscript(value=ast.Attribute(value=ast.Name(id=arr, ctx=ast.Load()), attr="shape", ctx=ast.Load()),
-                                                               slice=ast.Constant(0), ctx=ast.Load())], keywords=[]),
+            #   for i, v in enumerate(X[a:]): ...  ->  for i in range(X.shape[0] - a): v = X[i + a]; ...      (a a literal >= 0)
+            #   for i, v in enumerate(X, s): ...   ->  for i in range(s, X.shape[0] + s): v = X[i - s]; ...    (s a literal)
+            en = _enumerate_header(st) if isinstance(st, ast.For) else None
+            if en is not None:
+                cnt, elt, arr, lo, start = en
+                n_ = f"{arr}.shape[0]" + (f" - {lo}" if lo else "")
+                rng = f"range({n_})" if not start else f"range({start}, {n_} + {start})"
+                idx = cnt + (f" + {lo}" if lo else "") + (f" - {start}" if start else "")
+                fetch = ast.parse(f"{elt} = {arr}[{idx}]").body[0]
+                st = ast.For(target=ast.Name(id=cnt, ctx=ast.Store()), iter=ast.parse(rng, mode="eval").body,
                              body=[fetch] + st.body, orelse=[])
             # if not c: A else: B   ->   if c: B else: A
             if isinstance(st, ast.If) and isinstance(st.test, ast.UnaryOp) and isinstance(st.test.op, ast.Not) and st.orelse \
@@ -205,6 +234,45 @@ def _strip(fn: ast.FunctionDef) -> ast.FunctionDef:
         return out
     f.body = clean(f.body) or [ast.Pass()]
     return ast.fix_missing_locations(f)
+
+
+def _enumerate_header(st):
+    """`for cnt, elt in enumerate(X)` / `enumerate(X[a:])` / `enumerate(X, s)` / `enumerate(X, start=s)` with X a name, a and s integer
+    literals (a >= 0) -> (cnt, elt, X, a, s), else None"""
+    it = st.iter
+    if not (isinstance(it, ast.Call) and isinstance(it.func, ast.Name) and it.func.id == "enumerate" and 1 <= len(it.args) <= 2
+            and isinstance(st.target, ast.Tuple) and len(st.target.elts) == 2 and all(isinstance(e, ast.Name) for e in st.target.elts)
+            and not st.orelse):
+        return None
+
+    def lit(e):
+        if isinstance(e, ast.UnaryOp) and isinstance(e.op, ast.USub):
+            v_ = lit(e.operand)
+            return None if v_ is None else -v_
+        if isinstance(e, ast.Constant) and isinstance(e.value, int) and not isinstance(e.value, bool):
+            return e.value
+        return None
+    start = 0
+    extra = list(it.args[1:]) + [k.value for k in it.keywords if k.arg == "start"]
+    if len(extra) > 1 or len(it.keywords) != len([k for k in it.keywords if k.arg == "start"]):
+        return None
+    if extra:
+        start = lit(extra[0])
+        if start is None:
+            return None
+    seq, lo = it.args[0], 0
+    if isinstance(seq, ast.Subscript) and isinstance(seq.slice, ast.Slice) and seq.slice.upper is None and seq.slice.step is None \
+            and seq.slice.lower is not None:
+        lo = lit(seq.slice.lower)
+        if lo is None or lo < 0:
+            return None
+        seq = seq.value
+    if not isinstance(seq, ast.Name):
+        return None
+    cnt, elt = st.target.elts[0].id, st.target.elts[1].id
+    if len({cnt, elt, seq.id}) != 3:
+        return None
+    return cnt, elt, seq.id, lo, start
 
 
 def _is_docstring(st):
@@ -249,6 +317,330 @@ def _wrap_loops(block):
                 _wrap_loops(b)
 
 
+_WRAP_LOOPS = "wrap_loops_"
+
+
+def _wrap_intervals(block):
+    """`while x < L: x += P` and `while x > H: x -= P` in a row (either order; `<=` / `>=` kept as flags) bring x into the range by
+    whole periods: written x = wrap_loops_(x, L, low strict, H, high strict, P) so that the statements around them can be compared
+    and a closed form on the other side (L + (x - L) % P, which maps onto the half-open [L, L + P)) can be told apart; the order of
+    the two loops is kept as a tag (with P = H - L either order gives the same point, otherwise not necessarily)"""
+    def shape(w):
+        if not (isinstance(w, ast.While) and not w.orelse and len(w.body) == 1 and isinstance(w.body[0], ast.Assign)
+                and len(w.body[0].targets) == 1 and isinstance(w.body[0].targets[0], ast.Name)
+                and isinstance(w.body[0].value, ast.BinOp) and isinstance(w.body[0].value.op, (ast.Add, ast.Sub))
+                and isinstance(w.test, ast.Compare) and len(w.test.ops) == 1):
+            return None
+        x = w.body[0].targets[0].id
+        v_ = w.body[0].value
+        if isinstance(v_.left, ast.Name) and v_.left.id == x:
+            P = v_.right
+        elif isinstance(v_.right, ast.Name) and v_.right.id == x and isinstance(v_.op, ast.Add):
+            P = v_.left
+        else:
+            return None
+        l, o, r = w.test.left, w.test.ops[0], w.test.comparators[0]
+        if isinstance(l, ast.Name) and l.id == x and isinstance(o, (ast.Lt, ast.LtE)):
+            side, bound = "low", r
+        elif isinstance(r, ast.Name) and r.id == x and isinstance(o, (ast.Lt, ast.LtE)):
+            side, bound = "high", l          # x > H was normalised to H < x
+        else:
+            return None
+        if (side == "low") != isinstance(v_.op, ast.Add):
+            return None
+        for e in (P, bound):
+            if x in {n.id for n in ast.walk(e) if isinstance(n, ast.Name)} or any(isinstance(n, ast.Call) for n in ast.walk(e)):
+                return None
+        return x, side, bound, isinstance(o, ast.Lt), P
+    k = 0
+    while k + 1 < len(block):
+        s1, s2 = shape(block[k]), shape(block[k + 1])
+        if s1 and s2 and s1[0] == s2[0] and {s1[1], s2[1]} == {"low", "high"} and ast.dump(s1[4]) == ast.dump(s2[4]):
+            lo, hi = (s1, s2) if s1[1] == "low" else (s2, s1)
+            x = s1[0]
+            block[k:k + 2] = [ast.Assign(targets=[ast.Name(id=x, ctx=ast.Store())],
+                                         value=ast.Call(func=ast.Name(id=_WRAP_LOOPS, ctx=ast.Load()),
+                                                        args=[ast.Name(id=x, ctx=ast.Load()), lo[2], ast.Constant(bool(lo[3])), hi[2],
+                                                              ast.Constant(bool(hi[3])), lo[4],
+                                                              ast.Constant("low first" if s1[1] == "low" else "high first")], keywords=[]))]
+        k += 1
+    for st in block:
+        for fld in ("body", "orelse"):
+            b = getattr(st, fld, None)
+            if isinstance(b, list) and b and isinstance(b[0], ast.stmt):
+                _wrap_intervals(b)
+
+
+def _loops_against_closed_form(a, b):
+    """one side brings x into [L, H] by loops over whole periods, wrap_loops_(E, L, strict, H, strict, P) with H = L + P, the other uses
+    the closed form L + (E - L) % P  -> True (loops test `x >= H`: the same half-open range), False (loops test `x > H`, E input data:
+    a point exactly on H stays where it is in the loops and is sent to L by the closed form), None (parts do not correspond / E
+    bounded by construction); 'no' when this is not the situation"""
+    def is_wrap(e):
+        return isinstance(e, ast.Call) and isinstance(e.func, ast.Name) and e.func.id == _WRAP_LOOPS and len(e.args) == 7
+    w, m = (a, b) if is_wrap(a) else (b, a)
+    if not is_wrap(w) or is_wrap(m):
+        return "no"
+    terms = _additive_terms(m)
+    mods = [t for sg, t in terms if sg > 0 and _is_mod(t)]
+    rest = [(sg, t) for sg, t in terms if not (sg > 0 and _is_mod(t))]
+    if len(mods) != 1:
+        return "no"
+    try:
+        import sympy as sp
+        E, L, H, P = (_to_sym(w.args[k_], None) for k_ in (0, 1, 3, 5))
+        Lm = sum((sg * _to_sym(t, None) for sg, t in rest), sp.Integer(0))
+        inner, Pm = _to_sym(mods[0].left, None), _to_sym(mods[0].right, None)
+        same = sp.expand(Lm - L) == 0 and sp.expand(Pm - P) == 0 and sp.expand(inner + Lm - E) == 0 and sp.expand(H - L - P) == 0
+    except Exception:
+        return None
+    if not same or w.args[2].value is not True:
+        return None
+    if w.args[4].value is False:
+        return True          # loops test x >= H: both map onto [L, L + P)
+    return False if _is_input_data(w.args[0]) else None
+
+
+def _continue_to_else(f):
+    """in a loop body  `if C: S; continue` followed by R  is  `if C: S else: R`  (R up to the end of the loop body); a `continue` that
+    ends the loop body is dropped"""
+    def tail(block):
+        # block: statements up to the END of a loop body
+        for k, st in enumerate(block):
+            if isinstance(st, ast.If) and st.body and isinstance(st.body[-1], ast.Continue) \
+                    and not any(isinstance(n, ast.Continue) for s_ in st.body[:-1] + st.orelse for n in ast.walk(s_)
+                                if not isinstance(s_, (ast.For, ast.While))):
+                rest = tail(block[k + 1:])
+                body = tail(st.body[:-1]) or [ast.Pass()]
+                orelse = tail(st.orelse + rest) if (st.orelse or rest) else []
+                return block[:k] + [ast.If(test=st.test, body=body, orelse=orelse)]
+        if block and isinstance(block[-1], ast.Continue):
+            return block[:-1]
+        if block and isinstance(block[-1], ast.If):
+            last = block[-1]
+            last.body = tail(last.body) or [ast.Pass()]
+            last.orelse = tail(last.orelse)
+        return block
+    for lp in [n for n in ast.walk(f) if isinstance(n, (ast.For, ast.While))]:
+        lp.body = tail(lp.body) or [ast.Pass()]
+    return ast.fix_missing_locations(f)
+
+
+def _absorb_guards(block):
+    """`if A or B: while A: S; while B: T`  is  `while A: S; while B: T`: when the guard is false every disjunct is false, so the
+    first loop does not run, nothing has changed when the second is reached, and so on - the guarded loops do nothing exactly
+    when the guard says so (tests are comparisons without calls: no effects)"""
+    k = 0
+    while k < len(block):
+        st = block[k]
+        for fld in ("body", "orelse"):
+            b = getattr(st, fld, None)
+            if isinstance(b, list) and b and isinstance(b[0], ast.stmt):
+                _absorb_guards(b)
+        if isinstance(st, ast.If) and not st.orelse and st.body and all(isinstance(w, ast.While) and not w.orelse for w in st.body):
+            disj = st.test.values if isinstance(st.test, ast.BoolOp) and isinstance(st.test.op, ast.Or) else [st.test]
+            have = {ast.dump(d) for d in disj}
+            plain = all(not any(isinstance(n, (ast.Call, ast.NamedExpr, ast.Await, ast.Yield)) for n in ast.walk(d)) for d in disj)
+            if plain and all(ast.dump(w.test) in have for w in st.body):
+                block[k:k + 1] = st.body
+                k += len(st.body)
+                continue
+        k += 1
+
+
+_WRAP_ONCE = "wrap_once_"
+
+
+def _wrap_once(block):
+    """`if x >= H: x = x - A` / `if x < L: x = x + B` (alone, chained with elif, two in a row, or as conditional expressions) is ONE
+    conditional shift of x towards a range: written as x = wrap_once_(x, L, B, strict, H, A, strict, order).  It is a function of
+    its own: equal to `x % A` only while x lies within one period of the range.  Naming it lets the statements around it be
+    compared (and lets a modulo on the other side be recognised as a DIFFERENT function when x is input data)."""
+    none = ast.Constant(None)
+
+    def side_of(test, x, negate=False):
+        if not (isinstance(test, ast.Compare) and len(test.ops) == 1):
+            return None
+        l, op, r = test.left, test.ops[0], test.comparators[0]
+
+        def is_x(e):
+            return isinstance(e, ast.Name) and e.id == x
+
+        def free(e):
+            return x not in {n.id for n in ast.walk(e) if isinstance(n, ast.Name)} and not any(isinstance(n, ast.Call) for n in ast.walk(e))
+        if is_x(l) and free(r) and isinstance(op, (ast.Lt, ast.LtE, ast.Gt, ast.GtE)):
+            kind = type(op)
+            bound = r
+        elif is_x(r) and free(l) and isinstance(op, (ast.Lt, ast.LtE, ast.Gt, ast.GtE)):
+            kind = {ast.Lt: ast.Gt, ast.LtE: ast.GtE, ast.Gt: ast.Lt, ast.GtE: ast.LtE}[type(op)]
+            bound = l
+        else:
+            return None
+        if negate:
+            kind = {ast.Lt: ast.GtE, ast.LtE: ast.Gt, ast.Gt: ast.LtE, ast.GtE: ast.Lt}[kind]
+        return ("low" if kind in (ast.Lt, ast.LtE) else "high"), bound, kind in (ast.Lt, ast.Gt)
+
+    def shift_of(value, x):
+        """x + A -> ('+', A); x - A -> ('-', A)"""
+        if isinstance(value, ast.BinOp) and isinstance(value.op, (ast.Add, ast.Sub)):
+            if isinstance(value.left, ast.Name) and value.left.id == x:
+                amt = value.right
+            elif isinstance(value.right, ast.Name) and value.right.id == x and isinstance(value.op, ast.Add):
+                amt = value.left
+            else:
+                return None
+            if x in {n.id for n in ast.walk(amt) if isinstance(n, ast.Name)} or any(isinstance(n, ast.Call) for n in ast.walk(amt)):
+                return None
+            return ("+" if isinstance(value.op, ast.Add) else "-"), amt
+        return None
+
+    def arm(test, body, x=None, negate=False):
+        """one conditional shift -> (x, side, bound, strict, amount) when the direction of the shift is towards the range"""
+        if len(body) != 1 or not (isinstance(body[0], ast.Assign) and len(body[0].targets) == 1 and isinstance(body[0].targets[0], ast.Name)):
+            return None
+        x_ = body[0].targets[0].id
+        if x is not None and x != x_:
+            return None
+        sd, sh = side_of(test, x_, negate), shift_of(body[0].value, x_)
+        if sd is None or sh is None or (sd[0], sh[0]) not in (("low", "+"), ("high", "-")):
+            return None
+        return x_, sd[0], sd[1], sd[2], sh[1]
+
+    def one(st):
+        """a statement that is one or two chained conditional shifts of one variable -> (x, [arms]) else None"""
+        if isinstance(st, ast.If):
+            a1 = arm(st.test, st.body)
+            if a1 is None:
+                return None
+            if not st.orelse:
+                return a1[0], [a1[1:]], ""
+            if len(st.orelse) == 1 and isinstance(st.orelse[0], ast.If) and not st.orelse[0].orelse:
+                a2 = arm(st.orelse[0].test, st.orelse[0].body, a1[0])
+                if a2 is not None and a2[1] != a1[1]:
+                    return a1[0], [a1[1:], a2[1:]], "elif"
+            return None
+        if isinstance(st, ast.Assign) and len(st.targets) == 1 and isinstance(st.targets[0], ast.Name) and isinstance(st.value, ast.IfExp):
+            x, e = st.targets[0].id, st.value
+            keep_else = isinstance(e.orelse, ast.Name) and e.orelse.id == x
+            keep_body = isinstance(e.body, ast.Name) and e.body.id == x
+            if keep_else == keep_body:
+                return None
+            moved = e.body if keep_else else e.orelse
+            a1 = arm(e.test, [ast.Assign(targets=[ast.Name(id=x, ctx=ast.Store())], value=moved)], x, negate=keep_body)
+            return None if a1 is None else (a1[0], [a1[1:]], "")
+        return None
+
+    def call(x, arms, order):
+        slot = {"low": [none, none, none], "high": [none, none, none]}
+        for sd, bound, strict, amt in arms:
+            slot[sd] = [bound, amt, ast.Constant(bool(strict))]
+        first = arms[0][0] + (order and "-" + order)
+        return ast.Assign(targets=[ast.Name(id=x, ctx=ast.Store())],
+                          value=ast.Call(func=ast.Name(id=_WRAP_ONCE, ctx=ast.Load()),
+                                         args=[ast.Name(id=x, ctx=ast.Load())] + slot["low"] + slot["high"] + [ast.Constant(first)], keywords=[]))
+    k = 0
+    while k < len(block):
+        r1 = one(block[k])
+        if r1 is not None:
+            x, arms, order = r1
+            r2 = one(block[k + 1]) if k + 1 < len(block) and len(arms) == 1 else None
+            if r2 is not None and r2[0] == x and len(r2[1]) == 1 and r2[1][0][0] != arms[0][0]:
+                block[k:k + 2] = [call(x, arms + r2[1], "then")]
+            else:
+                block[k] = call(x, arms, order)
+        k += 1
+    for st in block:
+        for fld in ("body", "orelse"):
+            b = getattr(st, fld, None)
+            if isinstance(b, list) and b and isinstance(b[0], ast.stmt):
+                _wrap_once(b)
+
+
+_DATA = {"scalars": set(), "arrays": set()}      # input data of the function pair being compared (set by body_equivalence)
+
+
+def _is_input_data(e):
+    """does the expression contain a value the callers choose freely (a float parameter, an element of an array parameter)?"""
+    for n in ast.walk(e):
+        if isinstance(n, ast.Name) and n.id in _DATA["scalars"]:
+            return True
+        if isinstance(n, ast.Subscript) and isinstance(n.value, ast.Name) and n.value.id in _DATA["arrays"]:
+            return True
+    return False
+
+
+def _wrap_against_mod(a, b):
+    """one of the two expressions is a single conditional shift wrap_once_(E, ...), the other a reduction E % P with the same E and
+    the period(s) of the shift -> False when E is input data (the two functions differ as soon as E lies more than one period
+    outside the range), None when E is bounded by construction or the parts do not correspond; 'no' when this is not the case at all"""
+    def is_wrap(e):
+        return isinstance(e, ast.Call) and isinstance(e.func, ast.Name) and e.func.id == _WRAP_ONCE and len(e.args) == 8
+
+    def mod_parts(e):
+        if isinstance(e, ast.BinOp) and isinstance(e.op, ast.Mod):
+            return e.left, e.right
+        if isinstance(e, ast.Call) and not e.keywords and len(e.args) == 2 and src(e.func).split(".")[-1] in ("mod", "fmod", "remainder"):
+            return e.args[0], e.args[1]
+        return None
+    w, m = (a, b) if is_wrap(a) else (b, a)
+    if not is_wrap(w) or mod_parts(m) is None:
+        return "no"
+    E, P = mod_parts(m)
+    amounts = [x for x in (w.args[2], w.args[5]) if not (isinstance(x, ast.Constant) and x.value is None)]
+    if expr_same(w.args[0], E) is True and amounts and all(expr_same(x, P) is True for x in amounts):
+        return False if _is_input_data(E) else None
+    return None
+
+
+def _view_aliases(f, kinds):
+    """Y = X / Y = X.real / Y = X.imag at the top of the body (Y a local bound once and never handed on as a whole before; X a parameter
+    that is never re-bound) makes Y a name for the caller's array (or for one half of its complex elements): written back in place,
+    so that a store through Y is seen as the store into X it is.  X.real of an array declared real or integer is X itself."""
+    params = {a.arg for a in f.args.args}
+    nstores = {}
+    for n in ast.walk(f):
+        if isinstance(n, ast.Name) and isinstance(n.ctx, ast.Store):
+            nstores[n.id] = nstores.get(n.id, 0) + 1
+
+    def view(e):
+        if isinstance(e, ast.Name) and e.id in params and nstores.get(e.id, 0) == 0:
+            return e
+        if isinstance(e, ast.Attribute) and e.attr in ("real", "imag") and isinstance(e.value, ast.Name) and e.value.id in params \
+                and nstores.get(e.value.id, 0) == 0:
+            return e
+        return None
+    alias = {}
+    for st in list(f.body):
+        if isinstance(st, ast.Assign) and len(st.targets) == 1 and isinstance(st.targets[0], ast.Name) and view(st.value) is not None \
+                and nstores.get(st.targets[0].id) == 1 and st.targets[0].id not in params:
+            y = st.targets[0].id
+            # no use of y before the binding
+            before = [n for s_ in f.body[:f.body.index(st)] for n in ast.walk(s_) if isinstance(n, ast.Name) and n.id == y]
+            if not before:
+                alias[y] = st
+    if alias:
+        class A(ast.NodeTransformer):
+            def visit_Name(self, n):
+                if n.id in alias and isinstance(n.ctx, ast.Load):
+                    return ast.parse(ast.unparse(alias[n.id].value), mode="eval").body
+                return n
+        for st in alias.values():
+            f.body.remove(st)
+        f = ast.fix_missing_locations(A().visit(f))
+
+    class R(ast.NodeTransformer):
+        def visit_Attribute(self, n):
+            self.generic_visit(n)
+            if n.attr == "real" and isinstance(n.value, ast.Name) and kinds.get(n.value.id) in ("float", "float32", "int") \
+                    and nstores.get(n.value.id, 0) == 0 and isinstance(n.ctx, ast.Load):
+                return n.value
+            return n
+    f = ast.fix_missing_locations(R().visit(f))
+    if not f.body:
+        f.body = [ast.Pass()]
+    return f
+
+
 def _accumulators(f):
     """acc = E0; <loop updating acc>; X[idx] = acc   ->   X[idx] = E0; <loop updating X[idx]>   when the loop touches neither X nor
     the operands of idx and acc lives in these three statements only: the scalar is a name for the cell"""
@@ -263,9 +655,11 @@ def _accumulators(f):
             a, lp, st = block[k], block[k + 1], block[k + 2]
             if isinstance(a, ast.Assign) and len(a.targets) == 1 and isinstance(a.targets[0], ast.Name) and isinstance(lp, (ast.For, ast.While)) \
                     and isinstance(st, ast.Assign) and len(st.targets) == 1 and isinstance(st.targets[0], ast.Subscript) \
-                    and isinstance(st.targets[0].value, ast.Name) and isinstance(st.value, ast.Name) and st.value.id == a.targets[0].id:
+                    and (isinstance(st.targets[0].value, ast.Name) or isinstance(st.targets[0].value, ast.Attribute)
+                         and isinstance(st.targets[0].value.value, ast.Name)) \
+                    and isinstance(st.value, ast.Name) and st.value.id == a.targets[0].id:
                 acc, cell = a.targets[0].id, st.targets[0]
-                X = cell.value.id
+                X = _base_name(cell.value)
                 idx_names = {n.id for n in ast.walk(cell.slice) if isinstance(n, ast.Name)}
                 inside = sum(1 for n in ast.walk(lp) if isinstance(n, ast.Name) and n.id == acc)
                 stored_in_loop = {n.id for n in ast.walk(lp) if isinstance(n, ast.Name) and isinstance(n.ctx, ast.Store)}
@@ -415,6 +809,8 @@ def _inline_temps(f: ast.FunctionDef, pure: set, ranks: dict = None):
                 return element_of_param(e) and all(is_scalar(it) for it in items)
             if isinstance(e, ast.Call) and isinstance(e.func, ast.Name) and e.func.id in _MATH_PURE and not e.keywords:
                 return all(is_scalar(a) for a in e.args)
+            if isinstance(e, ast.Call) and isinstance(e.func, ast.Name) and e.func.id in (_WRAP_ONCE, _WRAP_LOOPS) and e.args:
+                return is_scalar(e.args[0])          # a conditionally shifted number is a number
             return False
         for _ in range(6):
             grew = False
@@ -456,7 +852,8 @@ def _inline_temps(f: ast.FunctionDef, pure: set, ranks: dict = None):
             a, b = block[k], block[k + 1]
             if isinstance(a, ast.Assign) and isinstance(b, ast.Assign) and len(a.targets) == 1 and len(b.targets) == 1 \
                     and isinstance(a.targets[0], ast.Name) and isinstance(b.targets[0], ast.Name) and a.targets[0].id == b.targets[0].id \
-                    and scalar_pure(a.value) \
+                    and (scalar_pure(a.value) or element_of_param(a.value) and all(scalar_pure(it) for it in (
+                        a.value.slice.elts if isinstance(a.value.slice, ast.Tuple) else [a.value.slice]))) \
                     and a.targets[0].id not in {n.id for n in ast.walk(a.value) if isinstance(n, ast.Name)}:
                 x, val = a.targets[0].id, a.value
 
@@ -830,6 +1227,131 @@ def _loop_order(f, pure):
     return changed[0]
 
 
+def _element_programs(f, pure):
+    """A function whose only effect is to fill arrays element by element - every stored array X is addressed, in every occurrence,
+    by the same tuple of distinct loop counters X[c1, .., cr]; each of these counters runs over one rectangular range, the same in
+    every loop that binds it; every store into X stands inside exactly the loops over c1..cr (and possibly others); a statement reads
+    no other element of a stored array than the one it writes; the only names bound are loop counters; no early exit, no procedure
+    call - computes each element by its own program: the statements that touch it, in execution order.  For a fixed element that
+    order is the lexicographic order of the remaining (non-index) loops, i.e. the body with the loops over c1..cr removed.  Two
+    functions with the same element programs over the same ranges compute the same arrays, however the index loops are nested,
+    split or fused.  -> (the body with the index loops removed, {array: counters}, {counter: range}) or None"""
+    f = ast.parse(ast.unparse(f)).body[0]
+    par = {}
+    for n in ast.walk(f):
+        for ch in ast.iter_child_nodes(n):
+            par[id(ch)] = n
+    params = {a.arg for a in f.args.args}
+    stored_arrays = set()
+    for n in ast.walk(f):
+        if isinstance(n, (ast.While, ast.Break, ast.Continue, ast.With, ast.Try, ast.Global, ast.Nonlocal, ast.Delete, ast.Lambda, ast.ListComp,
+                          ast.GeneratorExp, ast.Starred, ast.AugAssign, ast.AnnAssign, ast.NamedExpr, ast.Yield)):
+            return None
+        if isinstance(n, ast.Return) and (n.value is not None or par.get(id(n)) is not f):
+            return None
+        if isinstance(n, ast.Expr) and not _is_docstring(n):
+            return None
+        if isinstance(n, ast.Call) and not (isinstance(n.func, ast.Name) and (n.func.id in pure or n.func.id == "range")):
+            return None
+        if isinstance(n, ast.Attribute) and isinstance(n.ctx, ast.Store):
+            return None
+        if isinstance(n, ast.Subscript) and isinstance(n.ctx, ast.Store):
+            if not isinstance(n.value, ast.Name):
+                return None
+            stored_arrays.add(n.value.id)
+        if isinstance(n, ast.Name) and isinstance(n.ctx, ast.Store):
+            p_ = par.get(id(n))
+            if not (isinstance(p_, ast.For) and p_.target is n):
+                return None          # a scalar carried from statement to statement: not an element program
+    if not stored_arrays:
+        return None
+
+    def loops_around(n):
+        out = []
+        p_ = par.get(id(n))
+        while p_ is not None:
+            if isinstance(p_, ast.For):
+                out.append(p_)
+            p_ = par.get(id(p_))
+        return out
+    # the index tuple of every stored array
+    index_of = {}
+    for n in ast.walk(f):
+        if isinstance(n, ast.Name) and n.id in stored_arrays:
+            p_ = par.get(id(n))
+            if isinstance(p_, ast.Attribute) and p_.attr == "shape" and p_.value is n:
+                continue
+            if not (isinstance(p_, ast.Subscript) and p_.value is n):
+                return None
+            items = p_.slice.elts if isinstance(p_.slice, ast.Tuple) else [p_.slice]
+            if not all(isinstance(it, ast.Name) for it in items) or len({it.id for it in items}) != len(items):
+                return None
+            T = tuple(it.id for it in items)
+            if index_of.setdefault(n.id, T) != T:
+                return None
+    counters = {c for T in index_of.values() for c in T}
+    ranges = {}
+    stored_names = {n.id for n in ast.walk(f) if isinstance(n, ast.Name) and isinstance(n.ctx, ast.Store)}
+    for n in ast.walk(f):
+        if isinstance(n, ast.For):
+            if not (isinstance(n.target, ast.Name) and isinstance(n.iter, ast.Call) and isinstance(n.iter.func, ast.Name)
+                    and n.iter.func.id == "range" and not n.iter.keywords and 1 <= len(n.iter.args) <= 3) or n.orelse:
+                return None
+            if {x.id for x in ast.walk(n.iter) if isinstance(x, ast.Name)} & (stored_names | stored_arrays - params):
+                return None          # not rectangular
+            if n.target.id in counters:
+                # only the SET of values of an index counter matters (each value has its own element): range(a, b) and the reversed
+                # range(b - 1, a - 1, -1) are the same set
+                try:
+                    import sympy as sp
+                    z = [_to_sym(t, None) for t in n.iter.args]
+                    lo, hi, step = (sp.Integer(0), z[0], sp.Integer(1)) if len(z) == 1 else (z[0], z[1], z[2] if len(z) == 3 else sp.Integer(1))
+                    if step == 1:
+                        key = (sp.sstr(sp.expand(lo)), sp.sstr(sp.expand(hi)))
+                    elif step == -1:
+                        key = (sp.sstr(sp.expand(hi + 1)), sp.sstr(sp.expand(lo + 1)))
+                    else:
+                        return None
+                except Exception:
+                    return None
+                if ranges.setdefault(n.target.id, key) != key:
+                    return None
+                if any(lp.target.id == n.target.id for lp in loops_around(n)):
+                    return None
+    if set(ranges) != counters:
+        return None
+    # every statement: inside exactly the index loops of the element it writes; reads only that element of the stored arrays
+    for n in ast.walk(f):
+        if isinstance(n, ast.Assign):
+            if len(n.targets) != 1 or not isinstance(n.targets[0], ast.Subscript):
+                return None
+            X = n.targets[0].value.id
+            around = [lp.target.id for lp in loops_around(n)]
+            if sorted(c for c in around if c in counters) != sorted(index_of[X]):
+                return None
+            for x in ast.walk(n.value):
+                if isinstance(x, ast.Name) and x.id in stored_arrays and x.id != X:
+                    return None
+        elif isinstance(n, ast.If):
+            if any(isinstance(x, ast.Name) and x.id in stored_arrays for x in ast.walk(n.test)):
+                return None
+
+    def strip(block):
+        out = []
+        for st in block:
+            for fld in ("body", "orelse"):
+                b = getattr(st, fld, None)
+                if isinstance(b, list) and b and isinstance(b[0], ast.stmt):
+                    setattr(st, fld, strip(b) or [ast.Pass()])
+            if isinstance(st, ast.For) and st.target.id in counters:
+                out += [s_ for s_ in st.body if not isinstance(s_, ast.Pass)]
+            else:
+                out.append(st)
+        return out
+    f.body = strip(f.body) or [ast.Pass()]
+    return ast.parse(ast.unparse(ast.fix_missing_locations(f))).body[0], index_of, ranges
+
+
 def module_constants(tree: ast.Module) -> dict:
     """module-level `NAME = <scalar expression>` bound once (e.g. TWO_PI = 2 * pi): usable inside the functions like a literal"""
     seen: dict[str, list] = {}
@@ -1079,11 +1601,18 @@ def _positional_calls(f, tree):
 def canon_fn(fn: ast.FunctionDef, pure: set, tree: ast.Module = None) -> ast.FunctionDef:
     ren, mods = _import_aliases(fn, tree)
     ranks = _array_ranks(fn)
+    pure = set(pure) | {_WRAP_ONCE, _WRAP_LOOPS}
     f = _strip(fn)
+    try:
+        kinds = {a.arg: (_type_kind(src(a.annotation)) or (None,))[0] for a in fn.args.args if a.annotation is not None}
+        f = _view_aliases(f, kinds)
+    except Exception:
+        f = _strip(fn)
+    base = ast.parse(ast.unparse(f)).body[0]
     try:
         f = _scalarise_temps(f, ranks)
     except Exception:
-        f = _strip(fn)
+        f = base
     if tree is not None:
         f = _positional_calls(f, tree)
     if ren or mods:
@@ -1113,7 +1642,11 @@ def canon_fn(fn: ast.FunctionDef, pure: set, tree: ast.Module = None) -> ast.Fun
                         return ast.parse(ast.unparse(consts[n.id]), mode="eval").body
                     return n
             f = C().visit(f)
+    f = _continue_to_else(f)
+    _absorb_guards(f.body)
     _wrap_loops(f.body)
+    _wrap_intervals(f.body)
+    _wrap_once(f.body)
     _accumulators(f)
     f.body = _control(f.body) or [ast.Pass()]
     f = _inline_temps(f, pure, ranks)
@@ -1274,7 +1807,37 @@ def expr_same(a, b):
     if isinstance(a, ast.Tuple) and isinstance(b, ast.Tuple) and len(a.elts) == len(b.elts):
         rs = [expr_same(x, y) for x, y in zip(a.elts, b.elts)]
         return False if False in rs else (None if None in rs else True)
+    wm = _wrap_against_mod(a, b)
+    if wm != "no":
+        return wm
+    wm = _loops_against_closed_form(a, b)
+    if wm != "no":
+        return wm
+    if isinstance(a, ast.Call) and isinstance(b, ast.Call) and not a.keywords and not b.keywords and src(a.func) == src(b.func) \
+            and src(a.func) in (_WRAP_ONCE, _WRAP_LOOPS):
+        # two conditional shifts: the same function when every part is the same; a part written differently decides nothing
+        if len(a.args) != len(b.args):
+            return None
+        rs = []
+        for x, y in zip(a.args, b.args):
+            if isinstance(x, ast.Constant) and isinstance(y, ast.Constant) and (isinstance(x.value, (bool, str)) or x.value is None
+                                                                                    or isinstance(y.value, (bool, str)) or y.value is None):
+                rs.append(True if x.value == y.value and type(x.value) is type(y.value) else None)
+            elif isinstance(x, ast.Constant) and x.value is None or isinstance(y, ast.Constant) and y.value is None:
+                rs.append(None)
+            else:
+                rs.append(expr_same(x, y))
+        if all(r is True for r in rs):
+            return True
+        return False if rs[0] is False and all(r is True for r in rs[1:]) else None
     if isinstance(a, ast.Call) and isinstance(b, ast.Call) and not a.keywords and not b.keywords:
+        if src(a.func) == src(b.func) == "range" and 1 <= len(a.args) <= 3 and 1 <= len(b.args) <= 3:
+            # range(n) is range(0, n) is range(0, n, 1): the three parts are compared
+            def parts(r):
+                z = list(r.args)
+                return [ast.Constant(0), z[0], ast.Constant(1)] if len(z) == 1 else [z[0], z[1], z[2] if len(z) == 3 else ast.Constant(1)]
+            rs = [expr_same(x, y) for x, y in zip(parts(a), parts(b))]
+            return False if False in rs else (None if None in rs else True)
         if src(a.func) != src(b.func):
             return False if len(a.args) == len(b.args) and all(expr_same(x, y) is True for x, y in zip(a.args, b.args)) else None
         if len(a.args) != len(b.args):
@@ -1284,6 +1847,10 @@ def expr_same(a, b):
     if isinstance(a, ast.Subscript) and isinstance(b, ast.Subscript) and isinstance(a.ctx, ast.Store):
         if src(a.value) != src(b.value):
             return False
+    synth_a = {n.func.id for n in ast.walk(a) if isinstance(n, ast.Call) and isinstance(n.func, ast.Name) and n.func.id in (_WRAP_ONCE, _WRAP_LOOPS)}
+    synth_b = {n.func.id for n in ast.walk(b) if isinstance(n, ast.Call) and isinstance(n.func, ast.Name) and n.func.id in (_WRAP_ONCE, _WRAP_LOOPS)}
+    if synth_a != synth_b:
+        return None          # statements named as a wrap on one side, arithmetic on the other: not comparable as formulas
     try:
         import sympy as sp
         sa, sb = _to_sym(a, None), _to_sym(b, None)
@@ -1383,6 +1950,7 @@ def expand_call(call):
     bound once to a literal (`dict(k=v, ...)`, `{'k': v}`, a tuple or list display) -> (args, {keyword: value}, problem);
     problem: None, or a text saying which starred argument could not be followed, or ('twice', name)"""
     args, kws, problem = [], {}, None
+    _depth = [0]
 
     def literal_of(e, want):
         """resolve a name to its literal; -> (node, added keys) or (None, None)"""
@@ -1408,9 +1976,36 @@ def expand_call(call):
                     for t in (n.targets if isinstance(n, ast.Assign) else [n.target])
                     for x in ast.walk(t) if isinstance(x, ast.Attribute) and x.attr == e.attr and isinstance(x.value, ast.Name)
                     and x.value.id == "self" and isinstance(x.ctx, ast.Store)] if cls is not None else []
-            if len(sets) != 1 or not isinstance(sets[0], ast.Assign) or len(sets[0].targets) != 1 or not isinstance(sets[0].targets[0], ast.Attribute):
+            # ... or a class-level constant `attr = <display>` that no method re-binds
+            level = [st for st in (cls.body if cls is not None else []) if isinstance(st, ast.Assign) and len(st.targets) == 1
+                     and isinstance(st.targets[0], ast.Name) and st.targets[0].id == e.attr]
+            if len(level) == 1 and not sets:
+                e = level[0].value
+            elif len(sets) != 1 or level or not isinstance(sets[0], ast.Assign) or len(sets[0].targets) != 1 \
+                    or not isinstance(sets[0].targets[0], ast.Attribute):
                 return None, None
-            e = sets[0].value
+            else:
+                e = sets[0].value
+        if want == "seq":
+            # [E(x) for x in <literal sequence>] (also inside list(...) / tuple(...)): one element per element of the sequence
+            comp = e.args[0] if isinstance(e, ast.Call) and isinstance(e.func, ast.Name) and e.func.id in ("list", "tuple") and len(e.args) == 1 \
+                and not e.keywords else e
+            if isinstance(comp, (ast.ListComp, ast.GeneratorExp)) and len(comp.generators) == 1 and not comp.generators[0].ifs \
+                    and not comp.generators[0].is_async and isinstance(comp.generators[0].target, ast.Name) and not added and _depth[0] < 3:
+                _depth[0] += 1
+                try:
+                    inner, _ = literal_of(comp.generators[0].iter, "seq")
+                finally:
+                    _depth[0] -= 1
+                if inner is not None:
+                    x_ = comp.generators[0].target.id
+
+                    def inst(val):
+                        class S(ast.NodeTransformer):
+                            def visit_Name(self, n):
+                                return ast.parse(ast.unparse(val), mode="eval").body if n.id == x_ and isinstance(n.ctx, ast.Load) else n
+                        return ast.fix_missing_locations(S().visit(ast.parse(ast.unparse(comp.elt), mode="eval").body))
+                    return ast.Tuple(elts=[inst(v_) for v_ in inner.elts], ctx=ast.Load()), []
         if want == "seq" and isinstance(e, (ast.Tuple, ast.List)) and not any(isinstance(x, ast.Starred) for x in e.elts) and not added:
             return e, []
         if want == "map":
@@ -1456,7 +2051,7 @@ def keyword_calls(chk):
         for c in ast.walk(chk.mod(rel).tree):
             if isinstance(c, ast.Call) and c.keywords:
                 name = c.func.id if isinstance(c.func, ast.Name) else c.func.attr if isinstance(c.func, ast.Attribute) else None
-                if name:
+                for name in ([name] if name else []) + sorted(_dispatched(chk, c)):
                     out.setdefault(name, set()).update(k.arg for k in c.keywords if k.arg)
                     if any(k.arg is None for k in c.keywords):
                         _, kws, problem = expand_call(c)
@@ -1464,6 +2059,58 @@ def keyword_calls(chk):
                         if problem is not None and not isinstance(problem, tuple):
                             out[name].add("**")          # keywords passed through a mapping that could not be followed
     return out
+
+
+def _dispatch_fields(chk):
+    """kernels reached through a small table: {field or key: set of kernel function names} for every record / dict display of the library
+    whose entries are kernel functions - `T(field=kernel, ...)` (keyword constructor, e.g. a namedtuple or dataclass),
+    `T(kernel, ...)` with `T = namedtuple('T', [<literal fields>])`, `{'key': kernel, ...}` / `dict(key=kernel)`.  A call `X.field(...)`
+    / `X['key'](...)` is then a call of each of these kernels (which one is chosen at run time)."""
+    cache = chk.__dict__.get("_c19_dispatch")
+    if cache is not None:
+        return cache
+    kernels = set()
+    for k in U.KERNELS:
+        kernels |= {q for q in chk.mod(k).functions() if "." not in q}
+    out: dict[str, set] = {}
+    for rel in LIBS:
+        tree = chk.mod(rel).tree
+        fields_of = {}
+        for st in ast.walk(tree):
+            if isinstance(st, ast.Assign) and len(st.targets) == 1 and isinstance(st.targets[0], ast.Name) and isinstance(st.value, ast.Call) \
+                    and src(st.value.func).split(".")[-1] == "namedtuple" and len(st.value.args) >= 2:
+                spec = st.value.args[1]
+                if isinstance(spec, (ast.List, ast.Tuple)) and all(isinstance(e, ast.Constant) and isinstance(e.value, str) for e in spec.elts):
+                    fields_of[st.targets[0].id] = [e.value for e in spec.elts]
+                elif isinstance(spec, ast.Constant) and isinstance(spec.value, str):
+                    fields_of[st.targets[0].id] = spec.value.replace(",", " ").split()
+        for n in ast.walk(tree):
+            if isinstance(n, ast.Call):
+                for kw in n.keywords:
+                    if kw.arg and isinstance(kw.value, ast.Name) and kw.value.id in kernels:
+                        out.setdefault(kw.arg, set()).add(kw.value.id)
+                if isinstance(n.func, ast.Name) and n.func.id in fields_of:
+                    for fld, a in zip(fields_of[n.func.id], n.args):
+                        if isinstance(a, ast.Name) and a.id in kernels:
+                            out.setdefault(fld, set()).add(a.id)
+            elif isinstance(n, ast.Dict):
+                for k_, v_ in zip(n.keys, n.values):
+                    if isinstance(k_, ast.Constant) and isinstance(k_.value, str) and isinstance(v_, ast.Name) and v_.id in kernels:
+                        out.setdefault(k_.value, set()).add(v_.id)
+    out = {f_: ks for f_, ks in out.items() if f_ not in kernels}
+    chk.__dict__["_c19_dispatch"] = out
+    return out
+
+
+def _dispatched(chk, c):
+    """the kernels a call `X.field(...)` / `X['key'](...)` may reach through a dispatch table (empty when it is not such a call)"""
+    table = _dispatch_fields(chk)
+    if isinstance(c.func, ast.Attribute) and c.func.attr in table:
+        return table[c.func.attr]
+    if isinstance(c.func, ast.Subscript) and isinstance(c.func.slice, ast.Constant) and isinstance(c.func.slice.value, str) \
+            and c.func.slice.value in table:
+        return table[c.func.slice.value]
+    return set()
 
 
 def library_calls(chk):
@@ -1478,6 +2125,12 @@ def library_calls(chk):
         for c in ast.walk(mod.tree):
             if isinstance(c, ast.Call):
                 name = c.func.id if isinstance(c.func, ast.Name) else c.func.attr if isinstance(c.func, ast.Attribute) else None
+                via = _dispatched(chk, c)
+                if via:
+                    args, kws, problem = expand_call(c)
+                    for kname in sorted(via):
+                        out.setdefault(kname, []).append((rel, c, args, kws, problem))
+                    continue
                 if name is None or (isinstance(c.func, ast.Name) and (_shadowed(c, name) or not _imported(mod, name, c))):
                     continue
                 args, kws, problem = expand_call(c)
@@ -2189,6 +2842,13 @@ def body_equivalence(chk, ref, v, q, fn, vf, vm, flavour, pure):
                    f"does not have; none of the {len(calls)} library call(s) passes them, so the copy is compared with the reference at "
                    f"their defaults ({', '.join(x + '=' + src(dflt[x]) for x in extra)})", file=v, func=q, nontrivial=False)
             fn = spec
+    _DATA["scalars"], _DATA["arrays"] = set(), set()
+    for a_ in fn.args.args:
+        k_ = _type_kind(src(a_.annotation)) if a_.annotation is not None else None
+        if k_ is not None and k_[1] == 0 and k_[0] in ("float", "float32", "complex"):
+            _DATA["scalars"].add(a_.arg)
+        elif k_ is not None and k_[1] > 0:
+            _DATA["arrays"].add(a_.arg)
     if norm_fn(fn) == norm_fn(vf):
         chk.ob(R, vf, con, True, "AST-identical to the reference after stripping decorators, annotations, docstrings and local "
                "imports", file=v, func=q)
@@ -2196,6 +2856,7 @@ def body_equivalence(chk, ref, v, q, fn, vf, vm, flavour, pure):
     vfr = _rename_params(vf, [a.arg for a in fn.args.args])
     ca = cb = None
     canon_err = None
+    element_note = ""
     try:
         if vfr is not None:
             ca, cb = canon_fn(fn, pure, chk.mod(ref).tree), canon_fn(vfr, pure, vm.tree)
@@ -2221,6 +2882,26 @@ def body_equivalence(chk, ref, v, q, fn, vf, vm, flavour, pure):
                     return True
         except Exception:
             pass
+        # functions that fill arrays element by element: compared as the program of one element
+        try:
+            ea, eb = _element_programs(ca, pure), _element_programs(cb, pure)
+        except Exception:
+            ea = eb = None
+        if ea is not None and eb is not None and ea[1] == eb[1] and ea[2] == eb[2] and ast.dump(ea[0]) == ast.dump(eb[0]):
+            arrays = ", ".join(f"{X}[{', '.join(T)}]" for X, T in sorted(ea[1].items()))
+            chk.ob(R, vf, con, True, f"reference and copy only fill {arrays}, each element by the statements that address it (no scalar is "
+                   "carried between statements, no statement reads another element of a stored array, the index loops run over the same "
+                   "rectangular ranges on both sides); with the index loops removed both bodies are the same program of one element "
+                   "(same statements in the same order, the remaining loops - sums - in the same order): the same arrays result however "
+                   "the index loops are nested, split or fused", file=v, func=q)
+            return True
+        if ea is not None and eb is not None and ea[1] == eb[1] and ea[2] == eb[2]:
+            # same arrays over the same index ranges but another program of one element: the element programs are what is compared
+            # from here on (the projection preserves the meaning of each side)
+            ca, cb = ea[0], eb[0]
+            element_note = (" [both sides only fill " + ", ".join(f"{X}[{', '.join(T)}]" for X, T in sorted(ea[1].items())) +
+                            " element by element over the same index ranges; they are compared as the program of ONE element, i.e. with "
+                            "the index loops removed]")
     res, why = spec_check(chk, v, q, vm)
     if res is False:
         return False
@@ -2257,17 +2938,60 @@ def body_equivalence(chk, ref, v, q, fn, vf, vm, flavour, pure):
         chk.ob(R, vf, con, None, f"body differs from the reference; {why}; canonical form not available ({canon_err or 'parameters'})",
                file=v, func=q)
         return None
+    skeleton = None
     try:
         _GUARDS.clear()
         _pair_bodies(ca.body, cb.body, pairs)
     except _Skeleton as e:
-        chk.ob(R, vf, con, None, f"body differs from the reference `{ref}` in its statement structure ({e}) and {why}: equivalence "
-               "not decided", file=v, func=q)
-        return None
-    known_a, known_b = _bound_names(fn, chk.mod(ref).tree), _bound_names(vfr, vm.tree)
+        skeleton = e
+    known_a, known_b = _bound_names(fn, chk.mod(ref).tree) | {_WRAP_ONCE, _WRAP_LOOPS}, _bound_names(vfr, vm.tree) | {_WRAP_ONCE, _WRAP_LOOPS}
 
-    def judged(a, b, sb):
+    def half_of_complex(a, b, what):
+        """a store into X.real[...] / X.imag[...] on one side and into X[...] on the other: the same element only when X holds real
+        numbers -> True when that is the difference between the two targets"""
+        if what != "target" or not (isinstance(a, ast.Subscript) and isinstance(b, ast.Subscript)):
+            return False
+        va, vb = a.value, b.value
+        for p_, w_ in ((va, vb), (vb, va)):
+            if isinstance(p_, ast.Attribute) and p_.attr in ("real", "imag") and isinstance(p_.value, ast.Name) and isinstance(w_, ast.Name) \
+                    and w_.id == p_.value.id:
+                return True
+        return False
+
+    def admits_complex(x):
+        """the declared type of parameter x of the reference (TypeVar alternatives written out): 'complex' among them?  None: not declared"""
+        ann = next((a_.annotation for a_ in fn.args.args if a_.arg == x), None)
+        if ann is None:
+            return None
+        texts = [src(ann)]
+        if isinstance(ann, ast.Name):
+            for st in chk.mod(ref).tree.body:
+                if isinstance(st, ast.Assign) and any(isinstance(t, ast.Name) and t.id == ann.id for t in st.targets) \
+                        and isinstance(st.value, ast.Call) and src(st.value.func).split(".")[-1] == "TypeVar":
+                    texts = [src(x_) for x_ in st.value.args[1:]]
+        if not all(_type_kind(t) is not None for t in texts):
+            return None
+        return any(_type_kind(t)[0] == "complex" for t in texts)
+
+    def judged(a, b, sb, what=None):
         r = expr_same(a, b)
+        if r is False and half_of_complex(a, b, what):
+            cx = admits_complex(_base_name(a))
+            if cx is not True:
+                return True if cx is False and ".imag" not in src(a) + src(b) else None
+        if r is False and q.startswith("cu_"):
+            # the uniform-cubic family is only selected for degree 3 (the contract under which the specification engine reads these
+            # kernels too): a difference that vanishes for degree = deg1 = deg2 = 3 is not a recognised wrong form
+            class D(ast.NodeTransformer):
+                def visit_Name(self, n):
+                    return ast.Constant(3) if n.id in ("degree", "deg1", "deg2", "deg") and isinstance(n.ctx, ast.Load) else n
+            try:
+                a3 = _sort_operands(D().visit(ast.parse(ast.unparse(a), mode="eval").body))
+                b3 = _sort_operands(D().visit(ast.parse(ast.unparse(b), mode="eval").body))
+                if expr_same(a3, b3) is True:
+                    return None
+            except Exception:
+                pass
         if r is False:
             # a name whose binding is not visible here (module-level variable, ...) may stand for anything
             free = ({n.id for n in ast.walk(a) if isinstance(n, ast.Name)} - known_a) | ({n.id for n in ast.walk(b) if isinstance(n, ast.Name)} - known_b)
@@ -2279,7 +3003,47 @@ def body_equivalence(chk, ref, v, q, fn, vf, vm, flavour, pure):
             if any(chk.mod(ref).has(nm) != vm.has(nm) for nm in fa_ ^ fb_ if "." not in nm):
                 return None
         return r
-    verdicts = [(judged(a, b, sb), a, b, sa, sb, what) for a, b, sa, sb, what in pairs]
+    if skeleton is not None:
+        # structured differently: case analysis on the mode parameters
+        e = skeleton
+        try:
+            mres, mwhy, mdetail = mode_cases(fn, vfr, pure, chk.mod(ref).tree, vm.tree)
+        except Exception as e2:
+            mres, mwhy, mdetail = None, f"case analysis failed ({type(e2).__name__})", None
+        if mres is True:
+            chk.ob(R, vf, con, True, f"the bodies are structured differently ({e}) but dispatch on {mwhy}: on each region every comparison of "
+                   "the mode with a literal has one truth value; with the comparisons decided, dead arms removed and boolean locals "
+                   "propagated, reference and copy are identical in canonical form in every case", file=v, func=q)
+            return True
+        if mdetail is not None:
+            where, cca, ccb, all_point = mdetail
+            ps = []
+            try:
+                _GUARDS.clear()
+                _pair_bodies(cca.body, ccb.body, ps)
+            except _Skeleton:
+                ps = None
+            if ps and all_point:
+                vs_ = [(judged(a_, b_, sb_, w_), a_, b_, sa_, sb_, w_) for a_, b_, sa_, sb_, w_ in ps]
+                wrong_c = [x for x in vs_ if x[0] is False]
+                differing_c = [x for x in vs_ if x[0] is not True]
+                reordered = len({id(x[3]) for x in differing_c}) >= 2 and \
+                    sorted({id(x[3]): ast.dump(x[3]) for x in differing_c}.values()) == sorted({id(x[4]): ast.dump(x[4]) for x in differing_c}.values())
+                if wrong_c and len(wrong_c) == len(differing_c) and len(wrong_c) <= 3 and not reordered \
+                        and not any(x[5] == "target" for x in wrong_c):
+                    for _, a_, b_, sa_, sb_, w_ in wrong_c:
+                        head = src(sb_).splitlines()[0][:70]
+                        chk.ob(R, vf, f"{con}: case {where}: {w_} of `{head}`", False,
+                               f"reference and copy dispatch on the mode differently ({e}); specialised to the case {where} (comparisons of the "
+                               f"mode with literals decided, dead arms removed) their statements correspond one to one, and there the "
+                               f"{flavour} copy has `{_short(b_)}` where the reference {ref.split('/')[-1]} has `{_short(a_)}` ({w_} of `{head}`), "
+                               "which are not equal as formulas: for this mode the copy does not compute what the source it mirrors computes",
+                               file=v, func=q)
+                    return False
+        chk.ob(R, vf, con, None, f"body differs from the reference `{ref}` in its statement structure ({e}) and {why}; case analysis on "
+               f"mode parameters: {mwhy}: equivalence not decided", file=v, func=q)
+        return None
+    verdicts = [(judged(a, b, sb, what), a, b, sa, sb, what) for a, b, sa, sb, what in pairs]
     wrong = [x for x in verdicts if x[0] is False]
     unknown = [x for x in verdicts if x[0] is None]
     differing = [x for x in verdicts if x[0] is not True]
@@ -2300,7 +3064,7 @@ def body_equivalence(chk, ref, v, q, fn, vf, vm, flavour, pure):
                 _pair_bodies(ca.body, body_b, ps)
             except _Skeleton:
                 return None
-            return [(judged(a_, b_, sb_), a_, b_, sa_, sb_, w_) for a_, b_, sa_, sb_, w_ in ps]
+            return [(judged(a_, b_, sb_, w_), a_, b_, sa_, sb_, w_) for a_, b_, sa_, sb_, w_ in ps]
 
         def rejudge(body_b):
             vs_ = rejudge_full(body_b)
@@ -2348,10 +3112,25 @@ def body_equivalence(chk, ref, v, q, fn, vf, vm, flavour, pure):
             return None
     for _, a, b, sa, sb, what in wrong[:4]:
         head = src(sb).splitlines()[0][:70]
+        note = element_note
+        if half_of_complex(a, b, what):
+            note += (f" [the reference declares `{_base_name(a)}` with a complex alternative: a store through `.real` leaves the imaginary "
+                    "part of the element as it was, a store into the element sets it (to zero for a real value): for complex storage the "
+                    "two sides leave different arrays behind]")
+        if _WRAP_LOOPS in src(a) + src(b):
+            note += (f" [`{_WRAP_LOOPS}(x, L, strict, H, strict, P)` stands for the loops `while x < L: x += P` / `while x > H: x -= P` of that "
+                     "side: they leave a point that lies exactly on H where it is, whereas the closed form `L + (x - L) % P` of the other "
+                     "side maps onto the half-open range [L, L + P) and sends that point to L; x is input data, and evaluation points on "
+                     "the boundary are among the arguments the property names]")
+        if _WRAP_ONCE in src(a) + src(b):
+            note += (f" [`{_WRAP_ONCE}(x, L, B, strict, H, A, strict, order)` stands for the statements `if x < L: x += B` / `if x >= H: x -= A` "
+                    "of that side: ONE conditional shift of a period, which equals the reduction `x % A` of the other side only while x lies "
+                    "within one period of the range; x is computed from input data (array elements / float arguments), which no statement "
+                    "bounds: for a larger displacement the two sides hand different points on]")
         chk.ob(R, vf, f"{con}: {what} of `{head}`", False,
                f"the {flavour} copy has `{_short(b)}` where the reference {ref.split('/')[-1]} has `{_short(a)}` ({what} of `{head}`); all "
                "other statements correspond one to one, and the two expressions are not equal as formulas: the copy does not compute "
-               "what the source it mirrors computes", file=v, func=q)
+               "what the source it mirrors computes" + note, file=v, func=q)
     if wrong:
         return False
     if unknown:
@@ -2363,6 +3142,216 @@ def body_equivalence(chk, ref, v, q, fn, vf, vm, flavour, pure):
     chk.ob(R, vf, con, True, f"same statements as the reference; the {n} expression(s) written differently are equal as rational "
            "functions of their operands (re-association only)", file=v, func=q)
     return True
+
+
+# ---------------------------------------------------------------------------------------------------------
+# case analysis on mode parameters: an integer / boolean scalar parameter that the bodies only COMPARE with integer literals
+# (der == 0, bound == 2, der in {0, 1}, ...) cuts its domain into finitely many regions - each literal, and the open intervals
+# between and beyond them - on each of which every such comparison has one truth value.  Reference and copy are specialised to a
+# region (comparisons replaced by their truth value, dead arms removed, boolean locals propagated) and compared region by
+# region: a dispatch on the mode may then sit outside a loop on one side and inside it on the other, arms may be merged or
+# duplicated, the order of the tests may differ.
+# ---------------------------------------------------------------------------------------------------------
+
+def _int_literal(e):
+    if isinstance(e, ast.UnaryOp) and isinstance(e.op, ast.USub):
+        v_ = _int_literal(e.operand)
+        return None if v_ is None else -v_
+    if isinstance(e, ast.Constant) and isinstance(e.value, int) and not isinstance(e.value, bool):
+        return int(e.value)
+    return None
+
+
+def _mode_tests(f, p):
+    """-> (set of literals p is compared with, number of such tests)"""
+    lits, n = set(), 0
+    for c in ast.walk(f):
+        if isinstance(c, ast.Compare) and len(c.ops) == 1:
+            l, op, r = c.left, c.ops[0], c.comparators[0]
+            if isinstance(op, (ast.In, ast.NotIn)) and isinstance(l, ast.Name) and l.id == p and isinstance(r, (ast.Tuple, ast.List, ast.Set)) \
+                    and r.elts and all(_int_literal(x) is not None for x in r.elts):
+                lits |= {_int_literal(x) for x in r.elts}
+                n += 1
+            elif isinstance(op, (ast.Eq, ast.NotEq, ast.Lt, ast.LtE, ast.Gt, ast.GtE)):
+                for a_, b_ in ((l, r), (r, l)):
+                    if isinstance(a_, ast.Name) and a_.id == p and _int_literal(b_) is not None:
+                        lits.add(_int_literal(b_))
+                        n += 1
+    return lits, n
+
+
+def _mode_regions(lits):
+    """[(description, kind, representative)]: every literal, and the non-empty open intervals of integers around them"""
+    ls = sorted(lits)
+    out = [(f"< {ls[0]}", "open", ls[0] - 1)]
+    for k, l in enumerate(ls):
+        out.append((f"== {l}", "point", l))
+        if k + 1 < len(ls) and ls[k + 1] - l > 1:
+            out.append((f"in ({l}, {ls[k + 1]})", "open", l + 1))
+    out.append((f"> {ls[-1]}", "open", ls[-1] + 1))
+    return out
+
+
+def _specialise(fn, env):
+    """fn with the comparisons of the mode parameters decided on the region env = {p: (kind, representative)}; dead code removed"""
+    import operator
+    f = ast.parse(ast.unparse(fn)).body[0]
+    ops = {ast.Eq: operator.eq, ast.NotEq: operator.ne, ast.Lt: operator.lt, ast.LtE: operator.le, ast.Gt: operator.gt, ast.GtE: operator.ge}
+
+    def truth(e):
+        return e.value if isinstance(e, ast.Constant) and isinstance(e.value, bool) else None
+
+    class F(ast.NodeTransformer):
+        def __init__(self, consts):
+            self.consts = consts
+
+        def visit_Compare(self, c):
+            if len(c.ops) != 1:
+                self.generic_visit(c)
+                return c
+            l, op, r = c.left, c.ops[0], c.comparators[0]
+            if isinstance(op, (ast.In, ast.NotIn)) and isinstance(l, ast.Name) and l.id in env and isinstance(r, (ast.Tuple, ast.List, ast.Set)) \
+                    and r.elts and all(_int_literal(x) is not None for x in r.elts):
+                inside = env[l.id][1] in {_int_literal(x) for x in r.elts}
+                return ast.Constant(inside if isinstance(op, ast.In) else not inside)
+            if type(op) in ops:
+                if isinstance(l, ast.Name) and l.id in env and _int_literal(r) is not None:
+                    return ast.Constant(bool(ops[type(op)](env[l.id][1], _int_literal(r))))
+                if isinstance(r, ast.Name) and r.id in env and _int_literal(l) is not None:
+                    return ast.Constant(bool(ops[type(op)](_int_literal(l), env[r.id][1])))
+            self.generic_visit(c)
+            return c
+
+        def visit_Name(self, n):
+            if isinstance(n.ctx, ast.Load) and n.id in self.consts:
+                return ast.Constant(self.consts[n.id])
+            if isinstance(n.ctx, ast.Load) and n.id in env and env[n.id][0] == "point":
+                return ast.Constant(env[n.id][1])
+            return n
+
+        def visit_BoolOp(self, b):
+            self.generic_visit(b)
+            absorbing = isinstance(b.op, ast.Or)
+            vals = []
+            for v_ in b.values:
+                t = truth(v_)
+                if t is None:
+                    vals.append(v_)
+                elif t == absorbing:
+                    # `x or True` - what stands before it is still evaluated, but tests have no effects here
+                    return ast.Constant(absorbing)
+            if not vals:
+                return ast.Constant(not absorbing)
+            return vals[0] if len(vals) == 1 else ast.BoolOp(op=b.op, values=vals)
+
+        def visit_UnaryOp(self, u):
+            self.generic_visit(u)
+            if isinstance(u.op, ast.Not) and truth(u.operand) is not None:
+                return ast.Constant(not truth(u.operand))
+            return u
+
+        def visit_IfExp(self, e):
+            self.generic_visit(e)
+            t = truth(e.test)
+            return e if t is None else (e.body if t else e.orelse)
+
+        def visit_If(self, st):
+            self.generic_visit(st)
+            t = truth(st.test)
+            if t is None:
+                return st
+            return (st.body if t else st.orelse) or None
+
+        def visit_While(self, st):
+            self.generic_visit(st)
+            return None if truth(st.test) is False else st
+    consts = {}
+    for _ in range(4):
+        f = F(consts).visit(f)
+        if not f.body:
+            f.body = [ast.Pass()]
+        ast.fix_missing_locations(f)
+        # boolean locals bound once to a decided value are propagated
+        nst = {}
+        for n in ast.walk(f):
+            if isinstance(n, ast.Name) and isinstance(n.ctx, ast.Store):
+                nst[n.id] = nst.get(n.id, 0) + 1
+        new = {}
+        for st in ast.walk(f):
+            if isinstance(st, ast.Assign) and len(st.targets) == 1 and isinstance(st.targets[0], ast.Name) and truth(st.value) is not None \
+                    and nst.get(st.targets[0].id) == 1 and st.targets[0].id not in consts:
+                new[st.targets[0].id] = (st.value.value, st)
+        if not new:
+            break
+        for x, (v_, st) in new.items():
+            consts[x] = v_
+            _remove_stmt(f, st)
+    # what follows an unconditional return / raise / break / continue in its block is dead; a bare return at the end of the body is
+    # the end of the body
+    def prune(block):
+        for k, st in enumerate(block):
+            for fld in ("body", "orelse"):
+                b = getattr(st, fld, None)
+                if isinstance(b, list) and b and isinstance(b[0], ast.stmt):
+                    prune(b)
+            if isinstance(st, (ast.Return, ast.Raise, ast.Break, ast.Continue)):
+                del block[k + 1:]
+                break
+    prune(f.body)
+    if f.body and isinstance(f.body[-1], ast.Return) and f.body[-1].value is None:
+        f.body.pop()
+    for blk in ast.walk(f):
+        for fld in ("body", "orelse"):
+            b = getattr(blk, fld, None)
+            if isinstance(b, list) and fld == "body" and not b and isinstance(blk, (ast.For, ast.While, ast.If, ast.FunctionDef)):
+                blk.body = [ast.Pass()]
+    return ast.fix_missing_locations(f)
+
+
+def mode_cases(fn, vfr, pure, tree_a, tree_b):
+    """-> (True, text) when reference and copy are identical in canonical form on every region of their mode parameters;
+    (None, reason) otherwise"""
+    import itertools
+    stored = {n.id for f_ in (fn, vfr) for n in ast.walk(f_) if isinstance(n, ast.Name) and isinstance(n.ctx, ast.Store)}
+    modes = {}
+    for a_ in fn.args.args:
+        k_ = _type_kind(src(a_.annotation)) if a_.annotation is not None else None
+        if k_ is None or k_[1] != 0 or k_[0] not in ("int", "bool") or a_.arg in stored:
+            continue
+        la, na = _mode_tests(fn, a_.arg)
+        lb, nb = _mode_tests(vfr, a_.arg)
+        if k_[0] == "bool":
+            if na + nb == 0 and any(isinstance(t, (ast.If, ast.IfExp, ast.While)) and any(isinstance(x, ast.Name) and x.id == a_.arg
+                                                                                        for x in ast.walk(t.test))
+                                    for f_ in (fn, vfr) for t in ast.walk(f_)):
+                modes[a_.arg] = [("is False", "point", False), ("is True", "point", True)]
+        elif na + nb and (la | lb):
+            modes[a_.arg] = _mode_regions(la | lb)
+    if not modes:
+        return None, "no mode parameter (integer argument compared with literals)", None
+    names = sorted(modes)
+    combos = list(itertools.product(*[modes[p] for p in names]))
+    if len(combos) > 40:
+        return None, f"{len(combos)} combinations of the mode parameters {names}", None
+    for combo in combos:
+        env = {p: (kind, rep) for p, (_, kind, rep) in zip(names, combo)}
+        where = ", ".join(f"{p} {desc}" for p, (desc, _, _) in zip(names, combo))
+        try:
+            sa, sb = _specialise(fn, env), _specialise(vfr, env)
+            ca, cb = canon_fn(sa, pure, tree_a), canon_fn(sb, pure, tree_b)
+            ca.args = cb.args = _bare_args(ca)
+            if ast.dump(ca) != ast.dump(cb):
+                ra, rb = ast.parse(ast.unparse(ca)).body[0], ast.parse(ast.unparse(cb)).body[0]
+                _loop_order(ra, pure)
+                _loop_order(rb, pure)
+                ca, cb = ast.parse(ast.unparse(ra)).body[0], ast.parse(ast.unparse(rb)).body[0]
+        except Exception as e:
+            return None, f"case {where}: specialisation failed ({type(e).__name__})", None
+        if ast.dump(ca) != ast.dump(cb):
+            return None, f"for {where} the two bodies specialised to the case are not identical in canonical form", \
+                (where, ca, cb, all(kind == "point" for _, kind, _ in combo))
+    return True, (f"{len(combos)} case(s) of the mode parameter(s) " +
+                  ", ".join(f"`{p}` ({'; '.join(d for d, _, _ in modes[p])})" for p in names)), None
 
 
 def _local_convention(cb, wrong, rejudge_full):
@@ -2571,6 +3560,7 @@ def variant_agreement(chk):
     proved = unproved = 0
     pure = pure_functions(chk)
     kwcalls = keyword_calls(chk)
+    analysed, module_dump = {}, {}
     for ref, variants in U.VARIANTS.items():
         rm = chk.mod(ref)
         for v in variants:
@@ -2592,11 +3582,17 @@ def variant_agreement(chk):
                 # V2: export arity
                 ars = export_arities(vm, q, flavour)
                 if ars:
-                    bad = [x for x in ars if x is not None and x != len(pb)]
+                    # an export may leave out trailing parameters that have a default (one signature per way of calling the function)
+                    req_v = len(pb) - len(vf.args.defaults)
+                    bad = [x for x in ars if x is not None and not (req_v <= x <= len(pb))]
+                    full = any(x == len(pb) for x in ars)
                     oka = False if bad else (None if any(x is None for x in ars) else True)
                     chk.ob("V2-export-arity", vf, f"{v}:{q} export signature", oka,
-                           f"export declares {ars[0]} arguments = def arity" if oka else
-                           f"export declares {bad[0]} arguments but the function takes {len(pb)}: the {flavour} build rejects the module or "
+                           (f"export declares {ars[0]} arguments = def arity" if ars[0] == len(pb) and len(ars) == 1 else
+                            f"the {len(ars)} export signature(s) declare {sorted(set(ars))} arguments: between the {req_v} required and the "
+                            f"{len(pb)} parameters of the def (the others have defaults)" + ("" if full else "; none declares all of them")) if oka else
+                           f"export declares {bad[0]} arguments but the function takes {len(pb)}"
+                           + (f" ({req_v} of them required)" if req_v != len(pb) else "") + f": the {flavour} build rejects the module or "
                            "exports a function the library cannot call" if bad else "export signature not in a recognised form",
                            file=v, func=q, nontrivial=False)
                 # V2b: the exported argument types are those the reference kernel declares (kind and rank)
@@ -2644,7 +3640,26 @@ def variant_agreement(chk):
                             f"the {len(seen_h) - 1} helper(s) it is handed to") if not muts else
                            f"{len(muts)} write(s) reach an input array the reference never writes (listed separately)",
                            file=v, func=q, nontrivial=False)
-                # V4: body equivalence
+                # V4: body equivalence (a copy whose module is AST-identical to a sibling already analysed - the pythran dependency
+                # copies - gets the sibling's obligations under its own file name: the analysis reads nothing but the module)
+                vkey = (ref, q, flavour, module_dump.setdefault(v, ast.dump(vm.tree)))
+                if vkey in analysed:
+                    res, v0, obs0, funcs0 = analysed[vkey]
+                    import dataclasses
+                    for o in obs0:
+                        o2 = dataclasses.replace(o, file=v if o.file == v0 else o.file, construct=o.construct.replace(v0, v),
+                                                 msg=o.msg.replace(v0, v), facts=dict(o.facts))
+                        k2 = (o2.key, o2.status, o2.line)
+                        if k2 not in chk._seen:
+                            chk._seen.add(k2)
+                            chk.obs.append(o2)
+                    chk.functions |= {f_.replace(v0, v) for f_ in funcs0}
+                    if res is True:
+                        proved += 1
+                    elif res is None:
+                        unproved += 1
+                    continue
+                before_v4, funcs_v4 = len(chk.obs), set(chk.functions)
                 try:
                     res = body_equivalence(chk, ref, v, q, fn, vf, vm, flavour, pure)
                 except (AnalysisError, Undecided) as e:
@@ -2654,6 +3669,7 @@ def variant_agreement(chk):
                     res = None
                     chk.ob("V4-body-equivalence", vf, f"{v}:{q}", None, f"comparison with the reference failed ({type(e).__name__}: {e})",
                            file=v, func=q)
+                analysed[vkey] = (res, v, list(chk.obs[before_v4:]), set(chk.functions) - funcs_v4)
                 if res is True:
                     proved += 1
                 elif res is None:
@@ -2673,6 +3689,7 @@ def variant_agreement(chk):
             continue
         # the text as written (the per-file normalisation of the loader must not make two equal files look different)
         ta, tb = ast.parse(ma.src), ast.parse(mb.src)
+        _DATA["scalars"], _DATA["arrays"] = set(), set()
         if ast.dump(ta) == ast.dump(tb):
             chk.ob(R3, mb.tree, con, True, "the copy used as a pythran dependency is AST-identical to its sibling", file=b, func="<module>")
             continue
@@ -2849,9 +3866,18 @@ def spec_check(chk, v, q, vm, override=None):
             if "." not in name:
                 symx.ANNOTATION_SOURCE[name] = f
     real_mod = chk.mod
+    patched_mod = False
     if override is not None:
         vm = _Shim(vm, {q: override})
         chk.mod = lambda rel, _vm=vm: _vm if rel == v else real_mod(rel)
+        patched_mod = True
+    if v != U.CU and "cu_" in q and vm.has("cu_find_span"):
+        # the evaluator of a copy is read together with the span search of ITS module (the index convention of cu_find_span is a
+        # matter between the search and the evaluators of one module; the search itself is compared with the reference separately)
+        inner_mod = chk.mod
+        own_search = _Shim(real_mod(U.CU), {"cu_find_span": vm.func("cu_find_span")})
+        chk.mod = lambda rel, _in=inner_mod, _s=own_search: _s if rel == U.CU else _in(rel)
+        patched_mod = True
     try:
         if "eval_spline" in q and q.split("_")[-1] in ("scalar", "vector", "cross") and not re.search(r"_\d\d$", q):
             _with_module_funcs(C07.check_evaluator, chk, v, q, vm, rule="V4-body-equivalence")
@@ -2872,7 +3898,7 @@ def spec_check(chk, v, q, vm, override=None):
         return None, f"the specification check failed on this body ({type(e).__name__}: {e})"
     finally:
         symx.ANNOTATION_SOURCE.clear()
-        if override is not None:
+        if patched_mod:
             del chk.mod          # back to the class method
     new = chk.obs[before:]
     for o in new:
@@ -2999,7 +4025,8 @@ def call_sites(chk):
             if isinstance(c, ast.Call):
                 name = c.func.id if isinstance(c.func, ast.Name) else (c.func.attr if isinstance(c.func, ast.Attribute) and
                                                                      isinstance(c.func.value, ast.Name) and c.func.value.id in aliases else None)
-                if name in kernels and not _shadowed(c, name) and _imported(mod, name, c):
+                direct = [name] if name in kernels and not _shadowed(c, name) and _imported(mod, name, c) else []
+                for name in direct + sorted(kn for kn in _dispatched(chk, c) if kn in kernels and kn not in direct):
                     k, fn = kernels[name]
                     formals = [a.arg for a in fn.args.args]
                     nd = len(fn.args.defaults)
@@ -3053,11 +4080,17 @@ def _shadowed(call, name):
             if any(a.arg == name for a in args.args + args.kwonlyargs):
                 return True
             if isinstance(p, ast.FunctionDef):
-                for n in ast.walk(p):
-                    if isinstance(n, ast.FunctionDef) and n.name == name and n is not p:
-                        return True
-                    if isinstance(n, ast.Assign) and any(isinstance(t, ast.Name) and t.id == name for t in n.targets):
-                        return True
+                rebound = getattr(p, "_c19_rebound", None)
+                if rebound is None:
+                    rebound = set()
+                    for n in ast.walk(p):
+                        if isinstance(n, ast.FunctionDef) and n is not p:
+                            rebound.add(n.name)
+                        elif isinstance(n, ast.Assign):
+                            rebound |= {t.id for t in n.targets if isinstance(t, ast.Name)}
+                    p._c19_rebound = rebound
+                if name in rebound:
+                    return True
         p = parent(p)
     return False
 
@@ -3230,12 +4263,230 @@ def _correction_amount(st, x):
     return None
 
 
+def _data_sources(fn, int_arrays):
+    """{local: set of integer array parameters whose elements it is computed from} (see _data_ints)"""
+    T: dict[str, set] = {}
+    for _ in range(4):
+        for st in ast.walk(fn):
+            if isinstance(st, ast.For):
+                it, tg = st.iter, st.target
+                if isinstance(it, ast.Call) and src(it.func) == "enumerate" and it.args and isinstance(tg, ast.Tuple) and len(tg.elts) == 2:
+                    it, tg = it.args[0], tg.elts[1]
+                if isinstance(it, ast.Name) and it.id in int_arrays and isinstance(tg, ast.Name):
+                    T.setdefault(tg.id, set()).add(it.id)
+            elif isinstance(st, ast.Assign) and len(st.targets) == 1 and isinstance(st.targets[0], ast.Name):
+                v = st.value
+                if isinstance(v, ast.Subscript) and isinstance(v.value, ast.Name) and v.value.id in int_arrays:
+                    T.setdefault(st.targets[0].id, set()).add(v.value.id)
+                elif not _is_mod(v) and not any(isinstance(c, ast.Call) for c in ast.walk(v)):
+                    for nm in _names_outside_mod(v) & set(T):
+                        T.setdefault(st.targets[0].id, set()).update(T[nm])
+    return T
+
+
+def _nonnegative_by_construction(e, call, depth=0):
+    """is the value (a number or every element of an array) non-negative whatever the data?  True, or None (not followed).
+    Followed: reductions `% n`, abs, sums and products of such values, non-negative literals, elements / slices of such arrays,
+    np.arange(n), locals of the calling function bound once, attributes of `self` whose every assignment in the class is such a value"""
+    from ..core import enclosing_function
+    if depth > 4:
+        return None
+    if isinstance(e, ast.Constant):
+        return True if isinstance(e.value, (int, float)) and not isinstance(e.value, bool) and e.value >= 0 else None
+    if isinstance(e, ast.BinOp):
+        if isinstance(e.op, ast.Mod):
+            return True          # Python / numpy remainder has the sign of the modulus, a size
+        if isinstance(e.op, (ast.Add, ast.Mult)):
+            return True if _nonnegative_by_construction(e.left, call, depth + 1) and _nonnegative_by_construction(e.right, call, depth + 1) else None
+        return None
+    if isinstance(e, ast.Call) and not e.keywords:
+        name = src(e.func).split(".")[-1]
+        if name in ("abs", "absolute", "fabs") and len(e.args) == 1:
+            return True
+        if name in ("mod", "remainder") and len(e.args) == 2:
+            return True
+        if name == "arange" and len(e.args) == 1:
+            return True
+        if name in ("array", "asarray", "ascontiguousarray", "int", "copy") and len(e.args) >= 1:
+            return _nonnegative_by_construction(e.args[0], call, depth + 1)
+        return None
+    if isinstance(e, ast.Subscript):
+        return _nonnegative_by_construction(e.value, call, depth + 1)
+    if isinstance(e, ast.Name):
+        b, _ = _single_local_binding(call, e.id)
+        if b is not None and (b.lineno, b.col_offset) < (call.lineno, call.col_offset):
+            return _nonnegative_by_construction(b.value, call, depth + 1)
+        return None
+    if isinstance(e, ast.Attribute) and isinstance(e.value, ast.Name) and e.value.id == "self":
+        cls = parent(call)
+        while cls is not None and not isinstance(cls, ast.ClassDef):
+            cls = parent(cls)
+        if cls is None:
+            return None
+        vals = []
+        for n in ast.walk(cls):
+            if isinstance(n, (ast.Assign, ast.AugAssign, ast.AnnAssign)):
+                for t in (n.targets if isinstance(n, ast.Assign) else [n.target]):
+                    b_ = t
+                    while isinstance(b_, ast.Subscript):
+                        b_ = b_.value
+                    if isinstance(b_, ast.Attribute) and b_.attr == e.attr and isinstance(b_.value, ast.Name) and b_.value.id == "self":
+                        if not isinstance(n, ast.Assign) or n.value is None:
+                            return None
+                        vals.append(n.value)
+            elif isinstance(n, ast.Call) and any(isinstance(a, ast.Attribute) and a.attr == e.attr and isinstance(a.value, ast.Name)
+                                                 and a.value.id == "self" for a in list(n.args) + [k.value for k in n.keywords]
+                                                 if not (n is call)) and n is not call:
+                # handed to another routine, which may fill it
+                fname = src(n.func).split(".")[-1]
+                if fname not in ("len", "enumerate", "zip", "print", "range"):
+                    return None
+        if not vals:
+            return None
+        return True if all(_nonnegative_by_construction(v_, n_ctx, depth + 1) for v_, n_ctx in ((v_, call) for v_ in vals)) else None
+    return None
+
+
+def _unreduced_table_difference(e, call, depth=0):
+    """the value handed to the kernel is a difference from which stored table data (an element / slice of an array, an attribute of
+    the object, a name bound by a loop over such a table) is subtracted, and nothing reduces it afterwards -> text, else None"""
+    from ..core import enclosing_function
+    if depth > 3 or e is None:
+        return None
+    if isinstance(e, ast.Name):
+        b, _ = _single_local_binding(call, e.id)
+        if b is not None and (b.lineno, b.col_offset) < (call.lineno, call.col_offset):
+            return _unreduced_table_difference(b.value, call, depth + 1)
+        return None
+    if isinstance(e, ast.Subscript):
+        return _unreduced_table_difference(e.value, call, depth + 1)
+    if isinstance(e, ast.Call) and not e.keywords and src(e.func).split(".")[-1] in ("array", "asarray", "ascontiguousarray", "int", "copy") and e.args:
+        return _unreduced_table_difference(e.args[0], call, depth + 1)
+    if not (isinstance(e, ast.BinOp) and isinstance(e.op, (ast.Add, ast.Sub))):
+        return None
+    encl = enclosing_function(call)
+    loop_data = set()
+    for n in ast.walk(encl) if encl is not None else []:
+        if isinstance(n, ast.For) and not (isinstance(n.iter, ast.Call) and src(n.iter.func) == "range") \
+                and any(isinstance(x, ast.Attribute) for x in ast.walk(n.iter)):
+            loop_data |= {t.id for t in ast.walk(n.target) if isinstance(t, ast.Name)}
+            if isinstance(n.iter, ast.Call) and src(n.iter.func) == "enumerate" and isinstance(n.target, ast.Tuple) and n.target.elts \
+                    and isinstance(n.target.elts[0], ast.Name):
+                loop_data.discard(n.target.elts[0].id)
+    for sg, t in _additive_terms(e):
+        if sg < 0 and not _is_mod(t) and not any(isinstance(c, ast.Call) for c in ast.walk(t)):
+            if any(isinstance(x, (ast.Subscript, ast.Attribute)) for x in ast.walk(t)) or \
+                    any(isinstance(x, ast.Name) and x.id in loop_data for x in ast.walk(t)):
+                return f"`{_short(e, 60)}` subtracts the table data `{_short(t, 40)}` and is not reduced (`% n`) before it is handed over"
+    return None
+
+
+def _callers_pass_nonnegative(chk, q, param, depth=0, seen=None):
+    """every library call of kernel `q` passes a value that is non-negative by construction for `param`
+    -> (True, text) / (None, reason); wrappers that hand their own parameter on are followed"""
+    from ..core import enclosing_function
+    cache = chk.__dict__.setdefault("_c19_nonneg", {})
+    if (q, param) in cache:
+        return cache[(q, param)]
+    seen = seen or set()
+    if (q, param) in seen or depth > 3:
+        return None, "call chain too deep"
+    seen.add((q, param))
+    res = _callers_pass_nonnegative_1(chk, q, param, depth, seen)
+    seen.discard((q, param))
+    cache[(q, param)] = res
+    return res
+
+
+def _callers_pass_nonnegative_1(chk, q, param, depth, seen):
+    from ..core import enclosing_function
+    fn = None
+    for k in U.KERNELS:
+        if chk.mod(k).has(q):
+            fn = chk.mod(k).func(q)
+            break
+    if fn is None:
+        return None, f"`{q}` is not a kernel of the reference modules"
+    formals = [a.arg for a in fn.args.args]
+    if param not in formals:
+        return None, f"`{param}` is not a parameter of the reference `{q}`"
+    calls = library_calls(chk).get(q, [])
+    if not calls:
+        return None, f"no library call of `{q}` found"
+    shown = []
+    for rel, c, args, kws, problem in calls:
+        if problem is not None:
+            return None, f"the call at {rel.split('/')[-1]}:{c.lineno} passes arguments through a starred expression"
+        k_ = formals.index(param)
+        actual = args[k_] if k_ < len(args) else kws.get(param)
+        if actual is None:
+            return None, f"the call at {rel.split('/')[-1]}:{c.lineno} does not pass `{param}`"
+        encl = enclosing_function(c)
+        if isinstance(actual, ast.Name) and encl is not None and actual.id in {a.arg for a in encl.args.args} \
+                and not any(isinstance(n, ast.Name) and n.id == actual.id and isinstance(n.ctx, ast.Store) for n in ast.walk(encl)):
+            ok, why = _callers_pass_nonnegative(chk, encl.name, actual.id, depth + 1, seen)
+            if ok is not True:
+                return ok, why
+            shown.append(why)
+            continue
+        diff = _unreduced_table_difference(actual, c)
+        if diff is not None:
+            return False, f"the call at {rel.split('/')[-1]}:{c.lineno} passes {diff}"
+        if _nonnegative_by_construction(actual, c) is not True:
+            return None, (f"the call at {rel.split('/')[-1]}:{c.lineno} passes `{_short(actual, 60)}`, which is not recognisably non-negative "
+                          "(no reduction `% n`, abs, ... on the way)")
+        shown.append(f"`{_short(actual, 60)}` at {rel.split('/')[-1]}:{c.lineno}")
+    return True, "; ".join(shown[:3])
+
+
 def periodic_indices(chk, rel, q, fn, ref_fn):
     """-> number of violations recorded"""
     R = "K1-no-negative-index-wrap"
     nviol = 0
     int_arrays = _int_arrays(fn, ref_fn)
     data = _data_ints(fn, int_arrays)
+    sources = _data_sources(fn, int_arrays)
+    int_scalars = {a.arg for f_ in (fn, ref_fn) if f_ is not None for a in f_.args.args
+                   if a.annotation is not None and re.fullmatch(r"['\"]?\s*int\d*\s*['\"]?", src(a.annotation))} & {a.arg for a in fn.args.args}
+
+    def table_lookup(val):
+        """the index is read from integer array arguments and only constants / counters are ADDED to it (no variable is subtracted,
+        nothing counts from the end): its sign is the sign of what the callers pass -> (True/None, text), or 'no'"""
+        terms = _additive_terms(val)
+        if _from_end(val) or open_mods(val) or any(sg < 0 and not isinstance(t, ast.Constant) for sg, t in terms):
+            return "no"
+        arrays = set()
+        for sg, t in terms:
+            for n in ast.walk(t):
+                if isinstance(n, ast.Name) and n.id in data:
+                    arrays |= sources.get(n.id, set()) or {None}
+                if isinstance(n, ast.Name) and n.id in int_arrays:
+                    arrays.add(n.id)
+        if not arrays or None in arrays:
+            return "no"
+        if any(isinstance(t, ast.Constant) and sg * t.value < 0 for sg, t in terms if isinstance(t, ast.Constant) and isinstance(t.value, (int, float))):
+            return None, "a constant is subtracted from the table entry"
+        texts, undecided = [], None
+        for X in sorted(arrays):
+            ok, why = _callers_pass_nonnegative(chk, q, X)
+            if ok is False:
+                return False, f"`{X}`: {why}"
+            if ok is not True:
+                undecided = undecided or f"`{X}`: {why}"
+            texts.append(f"`{X}`: {why}")
+        return (None, undecided) if undecided else (True, "; ".join(texts))
+
+    def table_text(what, ok_t, why_t):
+        if ok_t:
+            return (f"{what} is an entry of an index table the callers hand in; every library call passes values that are non-negative by "
+                    f"construction ({why_t}): nothing for compiled code to wrap")
+        if ok_t is False:
+            return (f"{what} is an entry of an index table the callers hand in and is used as an index as it is; {why_t}: the entries are "
+                    "negative whenever the subtracted data exceed the minuend - interpreted Python then indexes from the end (silently, "
+                    "the periodic neighbour), the compiled (pyccel/pythran) kernel does not wrap a negative index and reads/writes "
+                    "before the start of the array")
+        return (f"{what} is an entry of an index table the callers hand in and is used as an index as it is: whether a negative entry can "
+                f"reach the compiled kernel depends on the callers, which could not be followed ({why_t})")
     stmts = sorted((st for st in ast.walk(fn) if isinstance(st, ast.stmt) and st is not fn), key=lambda s_: (s_.lineno, s_.col_offset))
     pos = {id(st): k for k, st in enumerate(stmts)}
     stores: dict[str, list] = {}
@@ -3342,6 +4593,32 @@ def periodic_indices(chk, rel, q, fn, ref_fn):
                 return f"the variable `{src(t)}` is subtracted"
         return None
 
+    own_params = {a.arg for a in fn.args.args}
+
+    def local_table(val):
+        """the index is an element of a LOCAL array filled in this kernel: what was stored decides its sign -> (store statement, text)
+        for a stored value that can be negative (unreduced difference of array data, subtracted remainder, counted from the end)"""
+        if not (isinstance(val, ast.Subscript) and isinstance(val.value, ast.Name) and val.value.id not in own_params):
+            return None
+        L = val.value.id
+        for st in stmts:
+            if isinstance(st, (ast.Assign, ast.AugAssign)):
+                tg = st.targets if isinstance(st, ast.Assign) else [st.target]
+                if any(isinstance(t, ast.Subscript) and isinstance(t.value, ast.Name) and t.value.id == L for t in tg):
+                    if isinstance(st, ast.AugAssign):
+                        if isinstance(st.op, ast.Mod):
+                            return None          # reduced in place afterwards
+                        continue
+                    V = resolve(st.value)
+                    if _is_mod(V):
+                        continue
+                    neg = [t for sg, t in _additive_terms(V) if sg < 0 and not isinstance(t, ast.Constant)]
+                    hit = [t for t in neg if (_names_outside_mod(t) & (data | int_arrays)) or _is_mod(t) and t in open_mods(V)]
+                    if hit or (_from_end(V) and (_names_outside_mod(V) & (data | int_arrays))):
+                        return st, (f"the local index table `{L}` is filled with `{src(st.value)}`, from which "
+                                    f"`{src(hit[0]) if hit else src(V)}` (data of an integer array argument, any sign, any size) is subtracted "
+                                    "without a reduction")
+        return None
     seen = set()
     for sub in ast.walk(fn):
         if not isinstance(sub, ast.Subscript) or isinstance(sub.value, ast.Attribute) and sub.value.attr == "shape":
@@ -3356,6 +4633,17 @@ def periodic_indices(chk, rel, q, fn, ref_fn):
                     continue
                 seen.add(x)
                 defs = [d for d in stores.get(x, []) if d is not None]
+                if not stores.get(x) and x in int_scalars:
+                    # an integer argument used as an index as it is: the index is computed by the callers
+                    ok_p, why_p = _callers_pass_nonnegative(chk, q, x)
+                    if ok_p is False:
+                        nviol += 1
+                        chk.ob(R, sub, f"{src(sub)[:60]} with the argument {x} as index", False,
+                               f"the integer argument `{x}` is used as an index as it is and {why_p}: the value is negative whenever the "
+                               "subtracted data exceed the minuend - interpreted Python then indexes from the end (silently, the periodic "
+                               "neighbour), the compiled (pyccel/pythran) kernel does not wrap a negative index and reads/writes before the "
+                               "start of the array", file=rel, func=q)
+                    continue
                 if len(defs) != len(stores.get(x, [])):
                     continue          # loop counters and unpacked values: not an index computed here
                 base = [d for d in defs if isinstance(d, ast.Assign) and x not in {n.id for n in ast.walk(d.value) if isinstance(n, ast.Name)}]
@@ -3364,6 +4652,13 @@ def periodic_indices(chk, rel, q, fn, ref_fn):
                     nxt = min([pos[id(o)] for o in base if pos[id(o)] > pos[id(d)]], default=10 ** 9)
                     mine = [_correction(c, x) for c in corr if pos[id(d)] < pos[id(c)] < nxt]
                     val = resolve(d.value)
+                    lt = local_table(val) if not mine else None
+                    if lt is not None:
+                        nviol += 1
+                        chk.ob(R, lt[0], f"index {x} = {src(d.value)}: {src(lt[0])[:60]}", False,
+                               f"`{x} = {src(d.value)}` is used as an index as it is and {lt[1]}: a negative entry is wrapped around by "
+                               "interpreted Python, the compiled kernel reads/writes out of bounds", file=rel, func=q)
+                        continue
                     fi = first_iteration_negative(val)
                     if fi is not None and not mine and (guarded_on(d, fi[0]) or guarded_on(sub, fi[0])):
                         chk.ob(R, d, f"index {x} = {src(d.value)}", None, f"`{x} = {src(d.value)}` would be {fi[2]} in the first iteration of "
@@ -3431,6 +4726,11 @@ def periodic_indices(chk, rel, q, fn, ref_fn):
                                f"nothing adds the period back: interpreted Python silently indexes `{src(sub)[:40]}` from the end (the "
                                "plane the modulo would have given), the compiled (pyccel/pythran) kernel does not wrap a negative index and "
                                "reads/writes before the start of the array, leaving the intended element untouched", file=rel, func=q)
+                    elif (_names_outside_mod(val) & data) and table_lookup(val) != "no":
+                        ok_t, why_t = table_lookup(val)
+                        nviol += ok_t is False
+                        chk.ob(R, d, f"index {x} = {src(d.value)} (read from an integer array argument)", ok_t,
+                               table_text(f"`{x} = {src(d.value)}`", ok_t, why_t), file=rel, func=q)
                     elif (_names_outside_mod(val) & data) or _from_end(val):
                         nviol += 1
                         chk.ob(R, d, f"index {x} = {src(d.value)} (never reduced)", False,
@@ -3443,6 +4743,13 @@ def periodic_indices(chk, rel, q, fn, ref_fn):
                     continue
                 seen.add(key)
                 val = resolve(it)
+                lt = local_table(val)
+                if lt is not None:
+                    nviol += 1
+                    chk.ob(R, lt[0], f"{src(sub)[:60]} with index {src(it)}: {src(lt[0])[:60]}", False,
+                           f"the index `{src(it)}` is used as it is and {lt[1]}: a negative entry is wrapped around by interpreted "
+                           "Python, the compiled kernel reads/writes out of bounds", file=rel, func=q)
+                    continue
                 fi = first_iteration_negative(val)
                 if fi is not None and guarded_on(sub, fi[0]):
                     chk.ob(R, sub, f"{src(sub)[:60]} with index {src(it)}", None, f"`{src(it)}` would be {fi[2]} in the first iteration of "
@@ -3461,7 +4768,12 @@ def periodic_indices(chk, rel, q, fn, ref_fn):
                     if _is_mod(val) and any(sg < 0 for sg, _ in _additive_terms(val.left)):
                         chk.ob(R, sub, f"{src(sub)[:60]}", True, "the difference is reduced with `%` inside the subscript", file=rel, func=q)
                     continue
-                if open_mods(val) or (_names_outside_mod(val) & data) or _from_end(val):
+                if (_names_outside_mod(val) & data) and table_lookup(val) != "no":
+                    ok_t, why_t = table_lookup(val)
+                    nviol += ok_t is False
+                    chk.ob(R, sub, f"{src(sub)[:60]} with index {src(it)} (read from an integer array argument)", ok_t,
+                           table_text(f"`{src(it)}`", ok_t, why_t), file=rel, func=q)
+                elif open_mods(val) or (_names_outside_mod(val) & data) or _from_end(val):
                     nviol += 1
                     chk.ob(R, sub, f"{src(sub)[:60]} with index {src(it)}", False,
                            f"the index `{src(it)}` can be negative ({why}): interpreted Python wraps it around, the compiled "
@@ -3487,8 +4799,9 @@ def index_wrap(chk):
                 chk.ob("K1-no-negative-index-wrap", fn, f"{rel}:{q}", None, f"index analysis failed ({type(e).__name__}: {e})", file=rel, func=q)
             # K2: value of a loop variable after its loop: Python keeps the last value taken, Fortran/C the first value not taken
             for lp in ast.walk(fn):
-                if not isinstance(lp, ast.For) or any(isinstance(b_, ast.Break) for b_ in ast.walk(lp)):
+                if not isinstance(lp, ast.For):
                     continue
+                has_break = any(isinstance(b_, ast.Break) for b_ in ast.walk(lp))
                 tnames = {t.id for t in ast.walk(lp.target) if isinstance(t, ast.Name)}
                 if isinstance(lp.iter, ast.Call) and src(lp.iter.func) == "enumerate" and isinstance(lp.target, ast.Tuple) \
                         and isinstance(lp.target.elts[0], ast.Name):
@@ -3507,15 +4820,50 @@ def index_wrap(chk):
                         if isinstance(x_.ctx, ast.Load) and (x_.lineno < first_store[0] or
                                                              (x_.lineno == first_store[0] and isinstance(parent(x_), ast.AugAssign) is False and
                                                               x_.col_offset > first_store[1])):
-                            n2[0] += 1
                             st_ = x_
                             while not isinstance(st_, ast.stmt):
                                 st_ = parent(st_)
+                            if has_break:
+                                # left through `break` the counter has the same value in both; run to its end it has not
+                                chk.ob("K2-loop-variable-after-loop", st_,
+                                       f"`{nm}` read in `{src(st_)[:60]}` after `for {src(lp.target)} in {src(lp.iter)[:40]}` (loop with break)", None,
+                                       f"the loop can be left through `break` (then `{nm}` has the same value in interpreted and compiled code) "
+                                       f"or run to its end (then Python leaves `{nm}` at the last value it took, the compiled Fortran/C loop at "
+                                       "the first value it did not take): whether the loop always ends through `break` is not decided",
+                                       file=rel, func=q)
+                                break
+                            n2[0] += 1
                             chk.ob("K2-loop-variable-after-loop", st_, f"`{nm}` read in `{src(st_)[:60]}` after `for {src(lp.target)} in {src(lp.iter)[:40]}`", False,
                                    f"after the loop Python leaves `{nm}` at the last value it took, the compiled Fortran/C loop at the first "
                                    f"value it did not take: `{src(st_)[:60]}` addresses a different element in the compiled kernel (one past the "
                                    "intended one)", file=rel, func=q)
                             break
+    # K3: an array argument re-bound as a whole.  Interpreted Python binds the local name to a NEW array and leaves the caller's array as it
+    # was; the compiled kernel has no new array to bind - the assignment to the dummy argument is an array assignment in place, the
+    # caller's data are overwritten.  (`X += E` / `X[:] = E` are in place in both; scalars are passed by value in both.)
+    n3 = 0
+    for rel in U.KERNELS:
+        for q, fn in chk.mod(rel).functions().items():
+            if "." in q:
+                continue
+            ranks = _array_ranks(fn)
+            arrays = {a for a, r_ in ranks.items() if r_ > 0}
+            for st in ast.walk(fn):
+                tgs = st.targets if isinstance(st, ast.Assign) else [st.target] if isinstance(st, ast.AnnAssign) and st.value is not None else []
+                for t in tgs:
+                    for nm in ([t] if isinstance(t, ast.Name) else [e for e in t.elts if isinstance(e, ast.Name)] if isinstance(t, (ast.Tuple, ast.List)) else []):
+                        if nm.id in arrays:
+                            n3 += 1
+                            final = any(a.arg == nm.id and a.annotation is not None and "Final" in src(a.annotation) for a in fn.args.args)
+                            chk.ob("K3-array-argument-rebound", st, f"{rel}:{q}: `{src(st)[:70]}`", False,
+                                   f"`{nm.id}` is an array argument of the kernel (declared `{src(next(a.annotation for a in fn.args.args if a.arg == nm.id))}`) "
+                                   f"and `{src(st)[:70]}` assigns to the bare name: interpreted Python binds the LOCAL name to a new array and "
+                                   "leaves the caller's array untouched, the compiled (pyccel) kernel has only the caller's array behind that "
+                                   "name and performs the assignment in place - the in-place effects of compiled and interpreted kernel "
+                                   "differ (the caller's data are overwritten, every later use of that array sees other values)"
+                                   + (" - and the argument is declared Final" if final else ""), file=rel, func=q)
+    chk.ob("K3-array-argument-rebound", None, "reference kernels", n3 == 0, f"{len(U.KERNELS)} pyccel kernel files scanned: no array argument is "
+           "re-bound as a whole" if n3 == 0 else f"{n3} array argument(s) re-bound as a whole", file="pygyro", func="<kernels>", nontrivial=False)
     chk.ob("K2-loop-variable-after-loop", None, "kernels and variants", n2[0] == 0, f"{len(files)} kernel files scanned: no counter of a "
            "for loop is read after its loop" if n2[0] == 0 else f"{n2[0]} reads of a loop counter after its loop", file="pygyro",
            func="<kernels>", nontrivial=False)
@@ -3523,28 +4871,44 @@ def index_wrap(chk):
            "X - (Y % n), no one-sided or single-step wrap of a subtracted index, no unreduced index built from array data" if n == 0 else f"{n} indices rely on negative wrap-around", file="pygyro", func="<kernels>", nontrivial=False)
 
 
-def build_witness(chk, tier):
-    """B1: the documented compiler front end accepts the kernels of the working tree"""
+def build_witness_start(chk):
+    """the translations of B1 run as child processes next to the static analysis (they share nothing with it): started here,
+    collected by build_witness -> handle"""
     pyccel = "/venv/bin/pyccel"
     if not os.path.exists(pyccel):
         raise AnalysisError("pyccel not found in /venv")
     tmp = tempfile.mkdtemp(prefix="pgverif_c19_")
-    try:
-        shutil.copytree(chk.repo.root / "pygyro", os.path.join(tmp, "pygyro"),
-                        ignore=shutil.ignore_patterns("__pycache__", "__pyccel__", "*.so", "*.o", "*.mod", "tests"))
-        for f in ("Makefile",):
-            shutil.copy(chk.repo.root / f, os.path.join(tmp, f))
+    shutil.copytree(chk.repo.root / "pygyro", os.path.join(tmp, "pygyro"),
+                    ignore=shutil.ignore_patterns("__pycache__", "__pyccel__", "*.so", "*.o", "*.mod", "tests"))
+    for f in ("Makefile",):
+        shutil.copy(chk.repo.root / f, os.path.join(tmp, f))
 
-        def one(rel):
-            d, f = os.path.split(rel)
+    def one(rel):
+        d, f = os.path.split(rel)
+        try:
             p = subprocess.run([pyccel, "-t", f], cwd=os.path.join(tmp, d), capture_output=True, text=True, timeout=600,
                                env={**os.environ, "PYTHONWARNINGS": "ignore"})
             return rel, p.returncode, (p.stdout + p.stderr)[-1500:]
+        except Exception as e:          # the tool could not be run: decides nothing about the kernel
+            return rel, -1, f"{type(e).__name__}: {e}"
+
+    def all_of_them():
         # the advection kernel imports the three others: translate it after them (as the Makefile does)
         first = [r for r in BUILD_ORDER if r != U.ADVK]
         with ThreadPoolExecutor(max_workers=4) as ex:
             results = list(ex.map(one, first))
         results.append(one(U.ADVK))
+        return results
+    pool = ThreadPoolExecutor(max_workers=1)
+    return tmp, pool, pool.submit(all_of_them)
+
+
+def build_witness(chk, tier, handle=None):
+    """B1: the documented compiler front end accepts the kernels of the working tree"""
+    tmp, pool, fut = handle if handle is not None else build_witness_start(chk)
+    try:
+        results = fut.result()
+        pool.shutdown(wait=False)
         for rel, rc, out in results:
             errs = [l for l in out.splitlines() if "error" in l.lower() or "ERROR" in l]
             # a diagnosis of the compiler about the source (|error [stage]: file [line,col]| ...) is a verdict; anything else that
@@ -3569,6 +4933,44 @@ def build_witness(chk, tier):
         shutil.rmtree(tmp, ignore_errors=True)
 
 
+def _make_words(txt, text, depth=0):
+    """words of a make expression with the plain variables of the file (NAME = / := / ?= words) and $(addsuffix ..) / $(addprefix ..)
+    written out; $(SO_EXT), $(NAME_PREFIX), $(ACC) ... (set elsewhere) are kept as they are"""
+    var = {}
+    for m in re.finditer(r"^([A-Za-z_][A-Za-z0-9_]*)\s*[:?]?=[ \t]*(.*)$", txt, re.M):
+        var.setdefault(m.group(1), m.group(2).strip())
+    if depth > 4:
+        return text.split()
+
+    def fn(m):
+        name, a, b = m.group(1), m.group(2).strip(), m.group(3)
+        items = _make_words(txt, b, depth + 1)
+        return " ".join((x + a) if name == "addsuffix" else (a + x) for x in items)
+    for _ in range(4):
+        new = re.sub(r"\$\((addsuffix|addprefix)\s+((?:[^,()]|\([^()]*\))*),((?:[^()]|\([^()]*\))*)\)", fn, text)
+        new = re.sub(r"\$\(([A-Za-z_][A-Za-z0-9_]*)\)", lambda m: var[m.group(1)] if m.group(1) in var and m.group(1) not in
+                     ("SO_EXT", "NAME_PREFIX", "ACC", "TOOL", "TOOL_FLAGS", "PYTHON") else m.group(0), new)
+        if new == text:
+            break
+        text = new
+    return text.split()
+
+
+def _pattern_rule_builds(txt, nm):
+    """the kernel is built from $(NAME_PREFIX)<kernel>.py by a static pattern rule `<targets>: %$(SO_EXT): $(NAME_PREFIX)%.py` whose target
+    list contains it, or by the pattern rule `%$(SO_EXT): $(NAME_PREFIX)%.py` with <kernel>$(SO_EXT) among the prerequisites of `all`"""
+    want = nm + "$(SO_EXT)"
+    src_pat = r"(?:pythran_deps/)?\$\(NAME_PREFIX\)%\.py"
+    for m in re.finditer(r"^([^#\n:=]+):\s*%\$\(SO_EXT\)\s*:\s*" + src_pat, txt, re.M):
+        if want in _make_words(txt, m.group(1)):
+            return True
+    if re.search(r"^%\$\(SO_EXT\)\s*:\s*" + src_pat, txt, re.M):
+        for m in re.finditer(r"^all\s*:(?!=)(.*)$", txt, re.M):
+            if want in _make_words(txt, m.group(1)):
+                return True
+    return False
+
+
 def makefile_targets(chk):
     """the documented build compiles exactly the five kernel modules"""
     found = set()
@@ -3579,7 +4981,8 @@ def makefile_targets(chk):
         txt = chk.repo.text(d + "/Makefile")
         for nm in names:
             all_targets.append((d, nm))
-            if re.search(r"^" + nm + r"\$\(SO_EXT\):\s*(?:pythran_deps/)?\$\(NAME_PREFIX\)" + nm + r"\.py", txt, re.M):
+            if re.search(r"^" + nm + r"\$\(SO_EXT\):\s*(?:pythran_deps/)?\$\(NAME_PREFIX\)" + nm + r"\.py", txt, re.M) \
+                    or _pattern_rule_builds(txt, nm):
                 found.add(nm)
     ok = len(found) == 5
     if ok:
@@ -3613,19 +5016,30 @@ def run(chk):
         "operand order), proved against the same specification formula as the reference (engine F, helper functions inlined), or "
         "statement-for-statement equal with algebraically equal expressions; loop-free functions are compared as tables of guarded "
         "values (path conditions decided by Fourier-Motzkin elimination); consistent changes of convention (shifted counter, permuted "
-        "axes of a scratch array, loop order of independent nests, scalarised elementwise temporaries) are followed on both sides - "
+        "axes of a scratch array, loop order of independent nests, scalarised elementwise temporaries, view aliases, iteration headers, "
+        "element programs with the index loops removed, case analysis on mode parameters) are followed on both sides; a single "
+        "conditional shift of a period against a modulo on input data is a different function - "
         "a recognisably different expression is a violation, "
         "anything else undecided; no kernel index relies on negative wrap-around (modulo lost, one-sided or single-step range "
         "correction, unreduced array data) and no loop counter is read after its loop. Equality of compiled and interpreted "
         "numerical results is inherently dynamic and is not decided.")
     chk.trusted.append("pyccel 2.0.1 front end (type/semantic analysis) from /venv")
     chk.in_file("pygyro")
-    makefile_targets(chk)
-    reference_inputs(chk)
-    variant_agreement(chk)
-    call_sites(chk)
-    index_wrap(chk)
-    build_witness(chk, chk.tier)
+    handle = build_witness_start(chk)
+    try:
+        makefile_targets(chk)
+        reference_inputs(chk)
+        variant_agreement(chk)
+        call_sites(chk)
+        index_wrap(chk)
+    except BaseException:
+        try:
+            handle[2].result()
+        except Exception:
+            pass
+        shutil.rmtree(handle[0], ignore_errors=True)
+        raise
+    build_witness(chk, chk.tier, handle)
     chk.floor("B1-build-front-end", 5)
     chk.floor("V4-body-equivalence", 55)
     chk.floor("V1-", 60)
